@@ -5519,62 +5519,63 @@ const uint8_t InstDB::rw_info_index_a_table[Inst::_kIdCount] = {
   45, 0, 46, 0, 45, 45, 0, 0, 0, 0, 0, 47, 0, 0, 0, 0, 0, 0, 0, 0, 0, 0, 0, 0,
   0, 0, 0, 0, 0, 0, 0, 0, 0, 0, 0, 0, 0, 0, 0, 48, 49, 50, 51, 52, 53, 54, 55,
   0, 0, 0, 56, 57, 58, 59, 0, 0, 0, 0, 0, 0, 0, 0, 0, 56, 57, 58, 59, 0, 0, 0, 0,
-  0, 0, 0, 0, 0, 0, 0, 0, 60, 0, 61, 0, 2, 0, 62, 0, 2, 0, 2, 0, 2, 0, 0, 0, 0,
-  0, 63, 64, 64, 64, 60, 2, 0, 0, 0, 10, 0, 0, 5, 5, 6, 7, 0, 0, 5, 5, 6, 7, 0,
-  0, 65, 66, 67, 67, 68, 49, 25, 37, 68, 54, 67, 67, 69, 70, 70, 71, 72, 72, 73,
-  73, 61, 61, 68, 61, 61, 72, 72, 74, 50, 54, 75, 76, 8, 8, 77, 78, 10, 67, 67,
-  78, 0, 36, 5, 5, 6, 7, 0, 79, 0, 0, 80, 0, 3, 5, 5, 81, 82, 10, 10, 10, 4,
-  4, 5, 4, 4, 4, 4, 4, 4, 4, 4, 4, 0, 4, 4, 0, 4, 83, 4, 0, 0, 0, 4, 4, 5, 4, 0,
-  0, 4, 4, 5, 4, 0, 0, 0, 0, 0, 0, 0, 0, 84, 28, 28, 83, 83, 83, 83, 83, 83, 83,
-  83, 83, 83, 28, 83, 83, 83, 28, 28, 83, 83, 83, 4, 4, 4, 85, 4, 4, 4, 28, 28,
-  0, 0, 0, 0, 4, 4, 5, 5, 4, 4, 5, 5, 5, 5, 4, 4, 5, 5, 86, 87, 88, 25, 25, 25,
-  87, 87, 88, 25, 25, 25, 87, 5, 4, 83, 4, 4, 5, 4, 4, 0, 0, 0, 10, 0, 0, 0, 4,
-  0, 0, 0, 0, 0, 0, 0, 0, 0, 4, 4, 0, 0, 0, 0, 4, 4, 4, 4, 89, 4, 4, 0, 4, 4,
-  4, 89, 4, 4, 4, 4, 4, 4, 4, 4, 4, 4, 28, 90, 0, 4, 4, 5, 4, 91, 91, 5, 91, 0,
-  0, 0, 0, 0, 0, 0, 0, 4, 92, 8, 93, 92, 0, 0, 94, 0, 0, 0, 0, 0, 0, 0, 0, 95, 0,
-  0, 0, 0, 0, 92, 92, 0, 0, 0, 0, 0, 0, 8, 93, 0, 0, 92, 0, 0, 3, 96, 0, 0, 0,
-  0, 0, 0, 0, 0, 0, 0, 0, 0, 0, 0, 0, 0, 0, 0, 0, 0, 0, 0, 0, 0, 5, 5, 5, 0, 5,
-  5, 0, 92, 0, 0, 92, 0, 0, 0, 0, 0, 0, 0, 0, 0, 8, 8, 27, 93, 0, 0, 0, 0, 0, 0,
-  97, 0, 0, 0, 3, 5, 5, 6, 7, 0, 0, 0, 0, 0, 0, 0, 10, 0, 0, 0, 0, 0, 0, 0, 0,
-  0, 16, 0, 98, 98, 0, 99, 0, 0, 0, 10, 10, 21, 22, 100, 100, 0, 0, 0, 0, 5, 5,
-  5, 5, 0, 0, 0, 0, 0, 0, 0, 0, 0, 0, 0, 0, 8, 0, 0, 0, 0, 0, 0, 0, 101, 101, 0,
-  0, 0, 0, 0, 0, 102, 29, 103, 104, 103, 104, 102, 29, 103, 104, 103, 104, 105,
-  106, 0, 0, 0, 0, 0, 0, 21, 107, 22, 108, 108, 109, 110, 10, 0, 68, 68, 68, 68,
-  110, 110, 111, 110, 10, 110, 10, 109, 112, 109, 109, 112, 109, 112, 10, 10,
-  10, 109, 0, 110, 109, 10, 109, 10, 113, 110, 0, 29, 0, 29, 0, 114, 0, 114, 0,
-  0, 0, 0, 0, 34, 34, 110, 10, 110, 10, 109, 112, 109, 112, 10, 10, 10, 109, 10,
-  109, 29, 29, 114, 114, 34, 34, 109, 110, 10, 10, 111, 110, 0, 0, 0, 10, 10,
-  0, 0, 0, 0, 0, 0, 0, 0, 0, 0, 0, 0, 10, 10, 0, 0, 0, 0, 0, 0, 0, 0, 0, 0, 0, 0,
+  0, 0, 0, 0, 0, 0, 0, 0, 60, 0, 61, 0, 62, 0, 63, 0, 62, 0, 62, 0, 62, 0, 0,
+  0, 0, 0, 64, 65, 65, 65, 60, 62, 0, 0, 0, 10, 0, 0, 5, 5, 6, 7, 0, 0, 5, 5, 6,
+  7, 0, 0, 66, 67, 68, 68, 69, 49, 25, 37, 70, 54, 68, 68, 71, 72, 72, 73, 74,
+  74, 75, 75, 76, 61, 70, 76, 76, 74, 74, 77, 50, 54, 78, 79, 8, 8, 80, 81, 10,
+  68, 68, 81, 0, 36, 5, 5, 6, 7, 0, 82, 0, 0, 83, 0, 3, 5, 5, 84, 85, 10, 10, 10,
+  4, 4, 5, 4, 4, 4, 4, 4, 4, 4, 4, 4, 0, 4, 4, 0, 4, 86, 4, 0, 0, 0, 4, 4, 5,
+  4, 0, 0, 4, 4, 5, 4, 0, 0, 0, 0, 0, 0, 0, 0, 87, 28, 28, 86, 86, 86, 86, 86, 86,
+  86, 86, 86, 86, 28, 86, 86, 86, 28, 28, 86, 86, 86, 4, 4, 4, 88, 4, 4, 4, 28,
+  28, 0, 0, 0, 0, 4, 4, 5, 5, 4, 4, 5, 5, 5, 5, 4, 4, 5, 5, 89, 90, 91, 25, 25,
+  25, 90, 90, 91, 25, 25, 25, 90, 5, 4, 86, 4, 4, 5, 4, 4, 0, 0, 0, 10, 0, 0,
+  0, 4, 0, 0, 0, 0, 0, 0, 0, 0, 0, 4, 4, 0, 0, 0, 0, 4, 4, 4, 4, 92, 4, 4, 0, 4,
+  4, 4, 92, 4, 4, 4, 4, 4, 4, 4, 4, 4, 4, 28, 93, 0, 4, 4, 5, 4, 94, 94, 5, 94,
+  0, 0, 0, 0, 0, 0, 0, 0, 4, 95, 8, 96, 95, 0, 0, 97, 0, 0, 0, 0, 0, 0, 0, 0,
+  98, 0, 0, 0, 0, 0, 95, 95, 0, 0, 0, 0, 0, 0, 8, 96, 0, 0, 95, 0, 0, 3, 99, 0,
+  0, 0, 0, 0, 0, 0, 0, 0, 0, 0, 0, 0, 0, 0, 0, 0, 0, 0, 0, 0, 0, 0, 0, 5, 5, 5,
+  0, 5, 5, 0, 95, 0, 0, 95, 0, 0, 0, 0, 0, 0, 0, 0, 0, 8, 8, 27, 96, 0, 0, 0, 0,
+  0, 0, 100, 0, 0, 0, 3, 5, 5, 6, 7, 0, 0, 0, 0, 0, 0, 0, 10, 0, 0, 0, 0, 0, 0,
+  0, 0, 0, 16, 0, 101, 101, 0, 102, 0, 0, 0, 10, 10, 21, 22, 103, 103, 0, 0, 0,
+  0, 5, 5, 5, 5, 0, 0, 0, 0, 0, 0, 0, 0, 0, 0, 0, 0, 8, 0, 0, 0, 0, 0, 0, 0, 104,
+  104, 0, 0, 0, 0, 0, 0, 105, 29, 106, 107, 106, 107, 105, 29, 106, 107, 106,
+  107, 108, 109, 0, 0, 0, 0, 0, 0, 21, 110, 22, 111, 111, 112, 113, 10, 0, 69,
+  69, 69, 69, 113, 113, 114, 113, 10, 113, 10, 112, 115, 112, 112, 115, 112, 115,
+  10, 10, 10, 112, 0, 113, 112, 10, 112, 10, 116, 113, 0, 29, 0, 29, 0, 117, 0,
+  117, 0, 0, 0, 0, 0, 34, 34, 113, 10, 113, 10, 112, 115, 112, 115, 10, 10, 10,
+  112, 10, 112, 29, 29, 117, 117, 34, 34, 112, 113, 10, 10, 114, 113, 0, 0, 0,
+  10, 10, 0, 0, 0, 0, 0, 0, 0, 0, 0, 0, 0, 0, 10, 10, 0, 0, 0, 0, 0, 0, 0, 0, 0,
   0, 0, 0, 0, 0, 0, 0, 0, 0, 0, 0, 0, 0, 0, 0, 0, 0, 0, 0, 0, 0, 0, 0, 0, 0, 0,
   0, 0, 0, 0, 0, 0, 0, 0, 0, 0, 0, 0, 0, 0, 0, 0, 0, 0, 0, 0, 0, 0, 0, 0, 0, 0,
   0, 0, 0, 0, 0, 0, 0, 0, 0, 0, 0, 0, 0, 0, 0, 0, 0, 0, 0, 0, 0, 0, 0, 0, 0, 0,
   0, 0, 0, 0, 0, 0, 0, 0, 0, 0, 0, 0, 0, 0, 0, 0, 0, 0, 0, 0, 0, 0, 0, 0, 0, 0,
-  0, 0, 0, 0, 0, 0, 0, 0, 0, 0, 0, 0, 0, 0, 0, 0, 0, 0, 0, 0, 0, 0, 0, 10, 10,
-  28, 115, 2, 2, 2, 116, 10, 10, 10, 0, 0, 0, 0, 0, 0, 0, 0, 0, 0, 0, 0, 0, 0,
-  0, 0, 0, 0, 0, 0, 0, 0, 0, 0, 0, 0, 0, 68, 0, 0, 0, 0, 0, 0, 0, 0, 0, 0, 0, 0,
-  0, 0, 0, 0, 0, 0, 0, 0, 0, 0, 0, 117, 117, 49, 118, 117, 117, 117, 117, 117,
-  117, 117, 117, 0, 119, 119, 0, 72, 72, 120, 121, 68, 68, 68, 68, 122, 72, 123,
-  10, 10, 74, 117, 117, 51, 0, 0, 0, 108, 0, 0, 0, 0, 0, 0, 0, 0, 0, 124, 0, 0,
-  0, 0, 0, 0, 10, 10, 10, 10, 0, 0, 0, 0, 0, 0, 0, 0, 0, 0, 0, 0, 0, 0, 0, 0, 0,
-  0, 0, 0, 0, 0, 0, 0, 0, 0, 0, 0, 125, 34, 126, 126, 29, 114, 0, 0, 0, 0, 0,
-  0, 0, 0, 0, 0, 0, 0, 0, 0, 0, 0, 0, 0, 0, 0, 0, 0, 0, 0, 108, 108, 108, 108, 0,
-  0, 0, 0, 0, 0, 10, 10, 0, 0, 0, 0, 0, 0, 0, 0, 0, 0, 0, 0, 0, 0, 0, 0, 0, 0,
-  0, 0, 0, 0, 0, 0, 0, 0, 0, 0, 0, 0, 0, 0, 0, 0, 0, 0, 0, 0, 0, 0, 10, 10, 10,
-  10, 0, 0, 0, 0, 2, 2, 116, 2, 8, 8, 8, 0, 8, 0, 8, 8, 8, 8, 8, 8, 0, 8, 8, 85,
-  8, 0, 8, 0, 0, 8, 0, 0, 0, 0, 10, 10, 0, 0, 0, 0, 0, 0, 0, 0, 0, 0, 0, 0, 0,
-  0, 0, 0, 0, 0, 0, 0, 0, 0, 0, 0, 0, 0, 0, 0, 0, 0, 0, 0, 0, 0, 127, 127, 128,
-  129, 126, 126, 126, 126, 86, 127, 130, 129, 128, 128, 129, 130, 129, 128, 129,
-  112, 131, 109, 109, 109, 112, 128, 129, 130, 129, 128, 129, 127, 129, 112, 131,
-  109, 109, 109, 112, 0, 0, 0, 0, 0, 0, 0, 0, 0, 10, 10, 10, 10, 0, 0, 0, 0,
-  0, 0, 0, 0, 0, 0, 0, 0, 0, 0, 0, 0, 0, 68, 68, 132, 68, 0, 0, 0, 0, 0, 0, 0,
   0, 0, 0, 0, 0, 0, 0, 0, 0, 0, 0, 0, 0, 0, 0, 0, 0, 0, 0, 0, 0, 0, 0, 0, 0, 0,
-  0, 0, 0, 0, 0, 0, 0, 0, 0, 0, 0, 0, 0, 0, 0, 0, 0, 0, 0, 0, 0, 0, 0, 0, 0, 124,
-  0, 0, 0, 0, 0, 0, 0, 0, 0, 0, 0, 0, 0, 0, 0, 0, 0, 0, 0, 0, 0, 0, 0, 10, 10,
-  0, 0, 10, 10, 0, 0, 0, 0, 0, 0, 0, 0, 0, 0, 0, 0, 0, 0, 0, 0, 0, 0, 10, 10, 0,
-  0, 10, 10, 0, 0, 0, 0, 0, 0, 0, 0, 68, 68, 68, 132, 133, 134, 0, 0, 0, 0, 0,
-  0, 0, 0, 0, 0, 0, 0, 10, 10, 10, 0, 0, 0, 0, 0, 0, 0, 0, 0, 0, 124, 124, 21,
-  107, 22, 0, 0, 0, 0, 0, 0, 0, 0, 0, 0, 0, 0, 0, 74, 72, 74, 72, 0, 135, 0, 136,
-  0, 0, 0, 3, 5, 5, 0, 0, 0, 0, 0, 0, 0, 0, 0, 0, 0, 0, 0, 0, 0, 0
+  10, 10, 28, 118, 62, 62, 62, 119, 10, 10, 10, 0, 0, 0, 0, 0, 0, 0, 0, 0, 0,
+  0, 0, 0, 0, 0, 0, 0, 0, 0, 0, 0, 0, 0, 0, 0, 0, 0, 69, 0, 0, 0, 0, 0, 0, 0, 0,
+  0, 0, 0, 0, 0, 0, 0, 0, 0, 0, 0, 0, 0, 0, 0, 120, 120, 49, 121, 120, 120, 120,
+  120, 120, 120, 120, 120, 0, 122, 122, 0, 74, 74, 123, 124, 70, 69, 70, 70, 125,
+  126, 127, 10, 10, 128, 120, 120, 51, 0, 0, 0, 111, 0, 0, 0, 0, 0, 0, 0, 0,
+  0, 129, 0, 0, 0, 0, 0, 0, 10, 10, 10, 10, 0, 0, 0, 0, 0, 0, 0, 0, 0, 0, 0, 0,
+  0, 0, 0, 0, 0, 0, 0, 0, 0, 0, 0, 0, 0, 0, 0, 0, 130, 34, 131, 131, 29, 117, 0,
+  0, 0, 0, 0, 0, 0, 0, 0, 0, 0, 0, 0, 0, 0, 0, 0, 0, 0, 0, 0, 0, 0, 0, 111, 111,
+  111, 111, 0, 0, 0, 0, 0, 0, 10, 10, 0, 0, 0, 0, 0, 0, 0, 0, 0, 0, 0, 0, 0,
+  0, 0, 0, 0, 0, 0, 0, 0, 0, 0, 0, 0, 0, 0, 0, 0, 0, 0, 0, 0, 0, 0, 0, 0, 0, 0,
+  0, 10, 10, 10, 10, 0, 0, 0, 0, 62, 62, 119, 62, 8, 8, 8, 0, 8, 0, 8, 8, 8, 8,
+  8, 8, 0, 8, 8, 88, 8, 0, 8, 0, 0, 8, 0, 0, 0, 0, 10, 10, 0, 0, 0, 0, 0, 0, 0,
+  0, 0, 0, 0, 0, 0, 0, 0, 0, 0, 0, 0, 0, 0, 0, 0, 0, 0, 0, 0, 0, 0, 0, 0, 0, 0,
+  0, 132, 132, 133, 134, 131, 131, 131, 131, 89, 132, 135, 134, 133, 133, 134, 135,
+  134, 133, 134, 115, 136, 112, 112, 112, 115, 133, 134, 135, 134, 133, 134,
+  132, 134, 115, 136, 112, 112, 112, 115, 0, 0, 0, 0, 0, 0, 0, 0, 0, 10, 10, 10,
+  10, 0, 0, 0, 0, 0, 0, 0, 0, 0, 0, 0, 0, 0, 0, 0, 0, 0, 70, 70, 137, 70, 0, 0,
+  0, 0, 0, 0, 0, 0, 0, 0, 0, 0, 0, 0, 0, 0, 0, 0, 0, 0, 0, 0, 0, 0, 0, 0, 0, 0,
+  0, 0, 0, 0, 0, 0, 0, 0, 0, 0, 0, 0, 0, 0, 0, 0, 0, 0, 0, 0, 0, 0, 0, 0, 0, 0,
+  0, 0, 0, 0, 129, 0, 0, 0, 0, 0, 0, 0, 0, 0, 0, 0, 0, 0, 0, 0, 0, 0, 0, 0, 0,
+  0, 0, 0, 10, 10, 0, 0, 10, 10, 0, 0, 0, 0, 0, 0, 0, 0, 0, 0, 0, 0, 0, 0, 0, 0,
+  0, 0, 10, 10, 0, 0, 10, 10, 0, 0, 0, 0, 0, 0, 0, 0, 70, 70, 70, 137, 138, 139,
+  0, 0, 0, 0, 0, 0, 0, 0, 0, 0, 0, 0, 10, 10, 10, 0, 0, 0, 0, 0, 0, 0, 0, 0,
+  0, 129, 129, 21, 110, 22, 0, 0, 0, 0, 0, 0, 0, 0, 0, 0, 0, 0, 0, 77, 74, 77, 74,
+  0, 140, 0, 141, 0, 0, 0, 3, 5, 5, 0, 0, 0, 0, 0, 0, 0, 0, 0, 0, 0, 0, 0, 0,
+  0, 0
 };
 
 const uint8_t InstDB::rw_info_index_b_table[Inst::_kIdCount] = {
@@ -5660,410 +5661,420 @@ const uint8_t InstDB::rw_info_index_b_table[Inst::_kIdCount] = {
 const InstDB::RWInfo InstDB::rw_info_a_table[] = {
   { InstDB::RWInfo::kCategoryGeneric   , 0 , { 0 , 0 , 0 , 0 , 0 , 0  } }, // #0 [ref=999x]
   { InstDB::RWInfo::kCategoryGeneric   , 0 , { 1 , 0 , 0 , 0 , 0 , 0  } }, // #1 [ref=2x]
-  { InstDB::RWInfo::kCategoryGeneric   , 0 , { 2 , 3 , 0 , 0 , 0 , 0  } }, // #2 [ref=15x]
-  { InstDB::RWInfo::kCategoryGeneric   , 1 , { 2 , 3 , 0 , 0 , 0 , 0  } }, // #3 [ref=7x]
-  { InstDB::RWInfo::kCategoryGeneric   , 2 , { 2 , 3 , 0 , 0 , 0 , 0  } }, // #4 [ref=82x]
-  { InstDB::RWInfo::kCategoryGeneric   , 3 , { 4 , 5 , 0 , 0 , 0 , 0  } }, // #5 [ref=55x]
-  { InstDB::RWInfo::kCategoryGeneric   , 4 , { 6 , 7 , 0 , 0 , 0 , 0  } }, // #6 [ref=6x]
-  { InstDB::RWInfo::kCategoryGeneric   , 5 , { 8 , 9 , 0 , 0 , 0 , 0  } }, // #7 [ref=6x]
-  { InstDB::RWInfo::kCategoryGeneric   , 3 , { 10, 5 , 0 , 0 , 0 , 0  } }, // #8 [ref=26x]
-  { InstDB::RWInfo::kCategoryGeneric   , 7 , { 12, 13, 0 , 0 , 0 , 0  } }, // #9 [ref=1x]
-  { InstDB::RWInfo::kCategoryGeneric   , 2 , { 11, 3 , 0 , 0 , 0 , 0  } }, // #10 [ref=75x]
-  { InstDB::RWInfo::kCategoryGeneric   , 2 , { 5 , 3 , 0 , 0 , 0 , 0  } }, // #11 [ref=3x]
-  { InstDB::RWInfo::kCategoryGeneric   , 8 , { 10, 3 , 0 , 0 , 0 , 0  } }, // #12 [ref=2x]
-  { InstDB::RWInfo::kCategoryGeneric   , 9 , { 10, 5 , 0 , 0 , 0 , 0  } }, // #13 [ref=1x]
-  { InstDB::RWInfo::kCategoryGeneric   , 8 , { 15, 5 , 0 , 0 , 0 , 0  } }, // #14 [ref=1x]
+  { InstDB::RWInfo::kCategoryGeneric   , 0 , { 2 , 3 , 0 , 0 , 0 , 0  } }, // #2 [ref=4x]
+  { InstDB::RWInfo::kCategoryGeneric   , 1 , { 4 , 3 , 0 , 0 , 0 , 0  } }, // #3 [ref=7x]
+  { InstDB::RWInfo::kCategoryGeneric   , 2 , { 4 , 3 , 0 , 0 , 0 , 0  } }, // #4 [ref=82x]
+  { InstDB::RWInfo::kCategoryGeneric   , 3 , { 5 , 6 , 0 , 0 , 0 , 0  } }, // #5 [ref=55x]
+  { InstDB::RWInfo::kCategoryGeneric   , 4 , { 7 , 8 , 0 , 0 , 0 , 0  } }, // #6 [ref=6x]
+  { InstDB::RWInfo::kCategoryGeneric   , 5 , { 9 , 10, 0 , 0 , 0 , 0  } }, // #7 [ref=6x]
+  { InstDB::RWInfo::kCategoryGeneric   , 3 , { 11, 6 , 0 , 0 , 0 , 0  } }, // #8 [ref=26x]
+  { InstDB::RWInfo::kCategoryGeneric   , 7 , { 13, 14, 0 , 0 , 0 , 0  } }, // #9 [ref=1x]
+  { InstDB::RWInfo::kCategoryGeneric   , 2 , { 12, 3 , 0 , 0 , 0 , 0  } }, // #10 [ref=75x]
+  { InstDB::RWInfo::kCategoryGeneric   , 2 , { 6 , 3 , 0 , 0 , 0 , 0  } }, // #11 [ref=3x]
+  { InstDB::RWInfo::kCategoryGeneric   , 8 , { 11, 3 , 0 , 0 , 0 , 0  } }, // #12 [ref=2x]
+  { InstDB::RWInfo::kCategoryGeneric   , 9 , { 11, 6 , 0 , 0 , 0 , 0  } }, // #13 [ref=1x]
+  { InstDB::RWInfo::kCategoryGeneric   , 8 , { 16, 6 , 0 , 0 , 0 , 0  } }, // #14 [ref=1x]
   { InstDB::RWInfo::kCategoryGeneric   , 0 , { 3 , 3 , 0 , 0 , 0 , 0  } }, // #15 [ref=1x]
   { InstDB::RWInfo::kCategoryGeneric   , 10, { 3 , 3 , 0 , 0 , 0 , 0  } }, // #16 [ref=2x]
-  { InstDB::RWInfo::kCategoryGeneric   , 10, { 2 , 3 , 0 , 0 , 0 , 0  } }, // #17 [ref=3x]
-  { InstDB::RWInfo::kCategoryGeneric   , 0 , { 16, 17, 0 , 0 , 0 , 0  } }, // #18 [ref=1x]
+  { InstDB::RWInfo::kCategoryGeneric   , 10, { 4 , 3 , 0 , 0 , 0 , 0  } }, // #17 [ref=3x]
+  { InstDB::RWInfo::kCategoryGeneric   , 0 , { 17, 18, 0 , 0 , 0 , 0  } }, // #18 [ref=1x]
   { InstDB::RWInfo::kCategoryGeneric   , 1 , { 3 , 3 , 0 , 0 , 0 , 0  } }, // #19 [ref=1x]
-  { InstDB::RWInfo::kCategoryGeneric   , 14, { 20, 21, 0 , 0 , 0 , 0  } }, // #20 [ref=1x]
-  { InstDB::RWInfo::kCategoryGeneric   , 4 , { 7 , 7 , 0 , 0 , 0 , 0  } }, // #21 [ref=4x]
-  { InstDB::RWInfo::kCategoryGeneric   , 5 , { 9 , 9 , 0 , 0 , 0 , 0  } }, // #22 [ref=4x]
-  { InstDB::RWInfo::kCategoryGeneric   , 0 , { 33, 34, 0 , 0 , 0 , 0  } }, // #23 [ref=1x]
-  { InstDB::RWInfo::kCategoryGeneric   , 16, { 2 , 3 , 0 , 0 , 0 , 0  } }, // #24 [ref=1x]
-  { InstDB::RWInfo::kCategoryGeneric   , 4 , { 10, 7 , 0 , 0 , 0 , 0  } }, // #25 [ref=10x]
-  { InstDB::RWInfo::kCategoryGeneric   , 3 , { 35, 5 , 0 , 0 , 0 , 0  } }, // #26 [ref=5x]
-  { InstDB::RWInfo::kCategoryGeneric   , 4 , { 36, 7 , 0 , 0 , 0 , 0  } }, // #27 [ref=2x]
-  { InstDB::RWInfo::kCategoryGeneric   , 4 , { 35, 7 , 0 , 0 , 0 , 0  } }, // #28 [ref=11x]
-  { InstDB::RWInfo::kCategoryGeneric   , 4 , { 11, 7 , 0 , 0 , 0 , 0  } }, // #29 [ref=9x]
-  { InstDB::RWInfo::kCategoryGeneric   , 4 , { 37, 7 , 0 , 0 , 0 , 0  } }, // #30 [ref=1x]
-  { InstDB::RWInfo::kCategoryGeneric   , 16, { 36, 3 , 0 , 0 , 0 , 0  } }, // #31 [ref=1x]
-  { InstDB::RWInfo::kCategoryGeneric   , 16, { 37, 3 , 0 , 0 , 0 , 0  } }, // #32 [ref=1x]
-  { InstDB::RWInfo::kCategoryGeneric   , 5 , { 36, 9 , 0 , 0 , 0 , 0  } }, // #33 [ref=1x]
-  { InstDB::RWInfo::kCategoryGeneric   , 5 , { 11, 9 , 0 , 0 , 0 , 0  } }, // #34 [ref=7x]
-  { InstDB::RWInfo::kCategoryGeneric   , 0 , { 38, 39, 0 , 0 , 0 , 0  } }, // #35 [ref=1x]
-  { InstDB::RWInfo::kCategoryGeneric   , 17, { 1 , 40, 0 , 0 , 0 , 0  } }, // #36 [ref=3x]
-  { InstDB::RWInfo::kCategoryGeneric   , 13, { 42, 43, 0 , 0 , 0 , 0  } }, // #37 [ref=3x]
-  { InstDB::RWInfo::kCategoryGeneric   , 0 , { 4 , 5 , 0 , 0 , 0 , 0  } }, // #38 [ref=2x]
-  { InstDB::RWInfo::kCategoryGeneric   , 0 , { 45, 46, 0 , 0 , 0 , 0  } }, // #39 [ref=6x]
-  { InstDB::RWInfo::kCategoryGeneric   , 0 , { 50, 30, 0 , 0 , 0 , 0  } }, // #40 [ref=1x]
-  { InstDB::RWInfo::kCategoryGeneric   , 0 , { 0 , 50, 0 , 0 , 0 , 0  } }, // #41 [ref=1x]
+  { InstDB::RWInfo::kCategoryGeneric   , 14, { 21, 22, 0 , 0 , 0 , 0  } }, // #20 [ref=1x]
+  { InstDB::RWInfo::kCategoryGeneric   , 4 , { 8 , 8 , 0 , 0 , 0 , 0  } }, // #21 [ref=4x]
+  { InstDB::RWInfo::kCategoryGeneric   , 5 , { 10, 10, 0 , 0 , 0 , 0  } }, // #22 [ref=4x]
+  { InstDB::RWInfo::kCategoryGeneric   , 0 , { 34, 35, 0 , 0 , 0 , 0  } }, // #23 [ref=1x]
+  { InstDB::RWInfo::kCategoryGeneric   , 16, { 4 , 3 , 0 , 0 , 0 , 0  } }, // #24 [ref=1x]
+  { InstDB::RWInfo::kCategoryGeneric   , 4 , { 11, 8 , 0 , 0 , 0 , 0  } }, // #25 [ref=10x]
+  { InstDB::RWInfo::kCategoryGeneric   , 3 , { 36, 6 , 0 , 0 , 0 , 0  } }, // #26 [ref=5x]
+  { InstDB::RWInfo::kCategoryGeneric   , 4 , { 37, 8 , 0 , 0 , 0 , 0  } }, // #27 [ref=2x]
+  { InstDB::RWInfo::kCategoryGeneric   , 4 , { 36, 8 , 0 , 0 , 0 , 0  } }, // #28 [ref=11x]
+  { InstDB::RWInfo::kCategoryGeneric   , 4 , { 12, 8 , 0 , 0 , 0 , 0  } }, // #29 [ref=9x]
+  { InstDB::RWInfo::kCategoryGeneric   , 4 , { 38, 8 , 0 , 0 , 0 , 0  } }, // #30 [ref=1x]
+  { InstDB::RWInfo::kCategoryGeneric   , 16, { 37, 3 , 0 , 0 , 0 , 0  } }, // #31 [ref=1x]
+  { InstDB::RWInfo::kCategoryGeneric   , 16, { 38, 3 , 0 , 0 , 0 , 0  } }, // #32 [ref=1x]
+  { InstDB::RWInfo::kCategoryGeneric   , 5 , { 37, 10, 0 , 0 , 0 , 0  } }, // #33 [ref=1x]
+  { InstDB::RWInfo::kCategoryGeneric   , 5 , { 12, 10, 0 , 0 , 0 , 0  } }, // #34 [ref=7x]
+  { InstDB::RWInfo::kCategoryGeneric   , 0 , { 39, 40, 0 , 0 , 0 , 0  } }, // #35 [ref=1x]
+  { InstDB::RWInfo::kCategoryGeneric   , 17, { 1 , 41, 0 , 0 , 0 , 0  } }, // #36 [ref=3x]
+  { InstDB::RWInfo::kCategoryGeneric   , 13, { 43, 44, 0 , 0 , 0 , 0  } }, // #37 [ref=3x]
+  { InstDB::RWInfo::kCategoryGeneric   , 0 , { 5 , 6 , 0 , 0 , 0 , 0  } }, // #38 [ref=2x]
+  { InstDB::RWInfo::kCategoryGeneric   , 0 , { 46, 47, 0 , 0 , 0 , 0  } }, // #39 [ref=6x]
+  { InstDB::RWInfo::kCategoryGeneric   , 0 , { 52, 31, 0 , 0 , 0 , 0  } }, // #40 [ref=1x]
+  { InstDB::RWInfo::kCategoryGeneric   , 0 , { 0 , 52, 0 , 0 , 0 , 0  } }, // #41 [ref=1x]
   { InstDB::RWInfo::kCategoryImul      , 2 , { 0 , 0 , 0 , 0 , 0 , 0  } }, // #42 [ref=1x]
-  { InstDB::RWInfo::kCategoryGeneric   , 0 , { 51, 52, 0 , 0 , 0 , 0  } }, // #43 [ref=1x]
-  { InstDB::RWInfo::kCategoryGeneric   , 14, { 53, 52, 0 , 0 , 0 , 0  } }, // #44 [ref=1x]
-  { InstDB::RWInfo::kCategoryGeneric   , 15, { 3 , 5 , 0 , 0 , 0 , 0  } }, // #45 [ref=3x]
-  { InstDB::RWInfo::kCategoryGeneric   , 0 , { 54, 29, 0 , 0 , 0 , 0  } }, // #46 [ref=1x]
-  { InstDB::RWInfo::kCategoryGeneric   , 0 , { 56, 0 , 0 , 0 , 0 , 0  } }, // #47 [ref=1x]
-  { InstDB::RWInfo::kCategoryGeneric   , 23, { 57, 40, 0 , 0 , 0 , 0  } }, // #48 [ref=1x]
-  { InstDB::RWInfo::kCategoryGeneric   , 24, { 44, 9 , 0 , 0 , 0 , 0  } }, // #49 [ref=3x]
-  { InstDB::RWInfo::kCategoryGeneric   , 25, { 35, 7 , 0 , 0 , 0 , 0  } }, // #50 [ref=2x]
-  { InstDB::RWInfo::kCategoryGeneric   , 26, { 48, 13, 0 , 0 , 0 , 0  } }, // #51 [ref=2x]
-  { InstDB::RWInfo::kCategoryGeneric   , 0 , { 57, 40, 0 , 0 , 0 , 0  } }, // #52 [ref=1x]
-  { InstDB::RWInfo::kCategoryGeneric   , 0 , { 44, 9 , 0 , 0 , 0 , 0  } }, // #53 [ref=1x]
-  { InstDB::RWInfo::kCategoryGeneric   , 0 , { 35, 7 , 0 , 0 , 0 , 0  } }, // #54 [ref=3x]
-  { InstDB::RWInfo::kCategoryGeneric   , 0 , { 48, 13, 0 , 0 , 0 , 0  } }, // #55 [ref=1x]
-  { InstDB::RWInfo::kCategoryGeneric   , 0 , { 40, 40, 0 , 0 , 0 , 0  } }, // #56 [ref=2x]
-  { InstDB::RWInfo::kCategoryGeneric   , 0 , { 9 , 9 , 0 , 0 , 0 , 0  } }, // #57 [ref=2x]
-  { InstDB::RWInfo::kCategoryGeneric   , 0 , { 7 , 7 , 0 , 0 , 0 , 0  } }, // #58 [ref=2x]
-  { InstDB::RWInfo::kCategoryGeneric   , 0 , { 13, 13, 0 , 0 , 0 , 0  } }, // #59 [ref=2x]
-  { InstDB::RWInfo::kCategoryGeneric   , 27, { 2 , 3 , 0 , 0 , 0 , 0  } }, // #60 [ref=2x]
-  { InstDB::RWInfo::kCategoryGeneric   , 15, { 10, 5 , 0 , 0 , 0 , 0  } }, // #61 [ref=5x]
-  { InstDB::RWInfo::kCategoryGeneric   , 8 , { 11, 3 , 0 , 0 , 0 , 0  } }, // #62 [ref=1x]
-  { InstDB::RWInfo::kCategoryGeneric   , 0 , { 51, 20, 0 , 0 , 0 , 0  } }, // #63 [ref=1x]
-  { InstDB::RWInfo::kCategoryGeneric   , 0 , { 59, 0 , 0 , 0 , 0 , 0  } }, // #64 [ref=3x]
-  { InstDB::RWInfo::kCategoryMov       , 29, { 0 , 0 , 0 , 0 , 0 , 0  } }, // #65 [ref=1x]
-  { InstDB::RWInfo::kCategoryMovabs    , 0 , { 0 , 0 , 0 , 0 , 0 , 0  } }, // #66 [ref=1x]
-  { InstDB::RWInfo::kCategoryGeneric   , 30, { 10, 5 , 0 , 0 , 0 , 0  } }, // #67 [ref=6x]
-  { InstDB::RWInfo::kCategoryGeneric   , 0 , { 11, 3 , 0 , 0 , 0 , 0  } }, // #68 [ref=18x]
-  { InstDB::RWInfo::kCategoryGeneric   , 0 , { 36, 63, 0 , 0 , 0 , 0  } }, // #69 [ref=1x]
-  { InstDB::RWInfo::kCategoryMovh64    , 12, { 0 , 0 , 0 , 0 , 0 , 0  } }, // #70 [ref=2x]
-  { InstDB::RWInfo::kCategoryGeneric   , 0 , { 64, 7 , 0 , 0 , 0 , 0  } }, // #71 [ref=1x]
-  { InstDB::RWInfo::kCategoryGeneric   , 12, { 35, 7 , 0 , 0 , 0 , 0  } }, // #72 [ref=9x]
-  { InstDB::RWInfo::kCategoryGeneric   , 0 , { 57, 5 , 0 , 0 , 0 , 0  } }, // #73 [ref=2x]
-  { InstDB::RWInfo::kCategoryGeneric   , 28, { 44, 9 , 0 , 0 , 0 , 0  } }, // #74 [ref=4x]
-  { InstDB::RWInfo::kCategoryGeneric   , 14, { 65, 20, 0 , 0 , 0 , 0  } }, // #75 [ref=1x]
-  { InstDB::RWInfo::kCategoryGeneric   , 31, { 35, 7 , 0 , 0 , 0 , 0  } }, // #76 [ref=1x]
-  { InstDB::RWInfo::kCategoryGeneric   , 33, { 44, 9 , 0 , 0 , 0 , 0  } }, // #77 [ref=1x]
-  { InstDB::RWInfo::kCategoryGeneric   , 16, { 11, 3 , 0 , 0 , 0 , 0  } }, // #78 [ref=2x]
-  { InstDB::RWInfo::kCategoryGeneric   , 0 , { 17, 29, 0 , 0 , 0 , 0  } }, // #79 [ref=1x]
-  { InstDB::RWInfo::kCategoryGeneric   , 11, { 3 , 3 , 0 , 0 , 0 , 0  } }, // #80 [ref=1x]
-  { InstDB::RWInfo::kCategoryGeneric   , 0 , { 52, 54, 0 , 0 , 0 , 0  } }, // #81 [ref=1x]
-  { InstDB::RWInfo::kCategoryGeneric   , 14, { 52, 68, 0 , 0 , 0 , 0  } }, // #82 [ref=1x]
-  { InstDB::RWInfo::kCategoryGeneric   , 4 , { 26, 7 , 0 , 0 , 0 , 0  } }, // #83 [ref=18x]
-  { InstDB::RWInfo::kCategoryGeneric   , 36, { 0 , 0 , 0 , 0 , 0 , 0  } }, // #84 [ref=1x]
-  { InstDB::RWInfo::kCategoryGeneric   , 3 , { 71, 5 , 0 , 0 , 0 , 0  } }, // #85 [ref=2x]
-  { InstDB::RWInfo::kCategoryVmov1_8   , 0 , { 0 , 0 , 0 , 0 , 0 , 0  } }, // #86 [ref=2x]
-  { InstDB::RWInfo::kCategoryGeneric   , 5 , { 10, 9 , 0 , 0 , 0 , 0  } }, // #87 [ref=4x]
-  { InstDB::RWInfo::kCategoryGeneric   , 27, { 10, 13, 0 , 0 , 0 , 0  } }, // #88 [ref=2x]
-  { InstDB::RWInfo::kCategoryGeneric   , 0 , { 4 , 0 , 0 , 0 , 0 , 0  } }, // #89 [ref=2x]
-  { InstDB::RWInfo::kCategoryGeneric   , 3 , { 5 , 5 , 0 , 0 , 0 , 0  } }, // #90 [ref=1x]
-  { InstDB::RWInfo::kCategoryPunpcklxx , 38, { 0 , 0 , 0 , 0 , 0 , 0  } }, // #91 [ref=3x]
-  { InstDB::RWInfo::kCategoryGeneric   , 10, { 2 , 72, 0 , 0 , 0 , 0  } }, // #92 [ref=7x]
-  { InstDB::RWInfo::kCategoryGeneric   , 5 , { 37, 9 , 0 , 0 , 0 , 0  } }, // #93 [ref=3x]
-  { InstDB::RWInfo::kCategoryGeneric   , 0 , { 35, 0 , 0 , 0 , 0 , 0  } }, // #94 [ref=1x]
-  { InstDB::RWInfo::kCategoryGeneric   , 0 , { 16, 50, 0 , 0 , 0 , 0  } }, // #95 [ref=1x]
-  { InstDB::RWInfo::kCategoryGeneric   , 0 , { 54, 21, 0 , 0 , 0 , 0  } }, // #96 [ref=1x]
-  { InstDB::RWInfo::kCategoryGeneric   , 0 , { 65, 54, 0 , 0 , 0 , 0  } }, // #97 [ref=1x]
-  { InstDB::RWInfo::kCategoryGeneric   , 8 , { 42, 3 , 0 , 0 , 0 , 0  } }, // #98 [ref=2x]
-  { InstDB::RWInfo::kCategoryGeneric   , 8 , { 11, 43, 0 , 0 , 0 , 0  } }, // #99 [ref=1x]
-  { InstDB::RWInfo::kCategoryGeneric   , 5 , { 76, 9 , 0 , 0 , 0 , 0  } }, // #100 [ref=2x]
-  { InstDB::RWInfo::kCategoryGeneric   , 21, { 11, 13, 0 , 0 , 0 , 0  } }, // #101 [ref=2x]
-  { InstDB::RWInfo::kCategoryGeneric   , 15, { 77, 5 , 0 , 0 , 0 , 0  } }, // #102 [ref=2x]
-  { InstDB::RWInfo::kCategoryGeneric   , 15, { 11, 5 , 0 , 0 , 0 , 0  } }, // #103 [ref=4x]
-  { InstDB::RWInfo::kCategoryGeneric   , 43, { 42, 78, 0 , 0 , 0 , 0  } }, // #104 [ref=4x]
-  { InstDB::RWInfo::kCategoryGeneric   , 44, { 11, 7 , 0 , 0 , 0 , 0  } }, // #105 [ref=1x]
-  { InstDB::RWInfo::kCategoryGeneric   , 45, { 11, 9 , 0 , 0 , 0 , 0  } }, // #106 [ref=1x]
-  { InstDB::RWInfo::kCategoryGeneric   , 27, { 13, 13, 0 , 0 , 0 , 0  } }, // #107 [ref=2x]
-  { InstDB::RWInfo::kCategoryGeneric   , 11, { 11, 3 , 0 , 0 , 0 , 0  } }, // #108 [ref=7x]
-  { InstDB::RWInfo::kCategoryVmov2_1   , 46, { 0 , 0 , 0 , 0 , 0 , 0  } }, // #109 [ref=19x]
-  { InstDB::RWInfo::kCategoryVmov1_2   , 16, { 0 , 0 , 0 , 0 , 0 , 0  } }, // #110 [ref=11x]
-  { InstDB::RWInfo::kCategoryVmov1_4   , 16, { 0 , 0 , 0 , 0 , 0 , 0  } }, // #111 [ref=2x]
-  { InstDB::RWInfo::kCategoryVmov4_1   , 47, { 0 , 0 , 0 , 0 , 0 , 0  } }, // #112 [ref=9x]
-  { InstDB::RWInfo::kCategoryGeneric   , 16, { 10, 3 , 0 , 0 , 0 , 0  } }, // #113 [ref=1x]
-  { InstDB::RWInfo::kCategoryGeneric   , 27, { 11, 13, 0 , 0 , 0 , 0  } }, // #114 [ref=5x]
-  { InstDB::RWInfo::kCategoryGeneric   , 5 , { 44, 9 , 0 , 0 , 0 , 0  } }, // #115 [ref=1x]
-  { InstDB::RWInfo::kCategoryGeneric   , 14, { 2 , 3 , 0 , 0 , 0 , 0  } }, // #116 [ref=2x]
-  { InstDB::RWInfo::kCategoryGeneric   , 57, { 11, 3 , 0 , 0 , 0 , 0  } }, // #117 [ref=12x]
-  { InstDB::RWInfo::kCategoryVmovddup  , 38, { 0 , 0 , 0 , 0 , 0 , 0  } }, // #118 [ref=1x]
-  { InstDB::RWInfo::kCategoryGeneric   , 12, { 35, 63, 0 , 0 , 0 , 0  } }, // #119 [ref=2x]
-  { InstDB::RWInfo::kCategoryVmovmskpd , 0 , { 0 , 0 , 0 , 0 , 0 , 0  } }, // #120 [ref=1x]
-  { InstDB::RWInfo::kCategoryVmovmskps , 0 , { 0 , 0 , 0 , 0 , 0 , 0  } }, // #121 [ref=1x]
-  { InstDB::RWInfo::kCategoryGeneric   , 58, { 35, 7 , 0 , 0 , 0 , 0  } }, // #122 [ref=1x]
-  { InstDB::RWInfo::kCategoryGeneric   , 21, { 48, 13, 0 , 0 , 0 , 0  } }, // #123 [ref=1x]
-  { InstDB::RWInfo::kCategoryGeneric   , 2 , { 3 , 3 , 0 , 0 , 0 , 0  } }, // #124 [ref=4x]
-  { InstDB::RWInfo::kCategoryGeneric   , 17, { 11, 40, 0 , 0 , 0 , 0  } }, // #125 [ref=1x]
-  { InstDB::RWInfo::kCategoryGeneric   , 0 , { 11, 7 , 0 , 0 , 0 , 0  } }, // #126 [ref=6x]
-  { InstDB::RWInfo::kCategoryGeneric   , 0 , { 35, 3 , 0 , 0 , 0 , 0  } }, // #127 [ref=4x]
-  { InstDB::RWInfo::kCategoryVmov1_4   , 61, { 0 , 0 , 0 , 0 , 0 , 0  } }, // #128 [ref=6x]
-  { InstDB::RWInfo::kCategoryVmov1_2   , 48, { 0 , 0 , 0 , 0 , 0 , 0  } }, // #129 [ref=9x]
-  { InstDB::RWInfo::kCategoryVmov1_8   , 62, { 0 , 0 , 0 , 0 , 0 , 0  } }, // #130 [ref=3x]
-  { InstDB::RWInfo::kCategoryVmov8_1   , 63, { 0 , 0 , 0 , 0 , 0 , 0  } }, // #131 [ref=2x]
-  { InstDB::RWInfo::kCategoryGeneric   , 14, { 11, 3 , 0 , 0 , 0 , 0  } }, // #132 [ref=2x]
-  { InstDB::RWInfo::kCategoryGeneric   , 0 , { 88, 5 , 0 , 0 , 0 , 0  } }, // #133 [ref=1x]
-  { InstDB::RWInfo::kCategoryGeneric   , 0 , { 88, 78, 0 , 0 , 0 , 0  } }, // #134 [ref=1x]
-  { InstDB::RWInfo::kCategoryGeneric   , 11, { 2 , 2 , 0 , 0 , 0 , 0  } }, // #135 [ref=1x]
-  { InstDB::RWInfo::kCategoryGeneric   , 57, { 2 , 2 , 0 , 0 , 0 , 0  } }  // #136 [ref=1x]
+  { InstDB::RWInfo::kCategoryGeneric   , 0 , { 53, 54, 0 , 0 , 0 , 0  } }, // #43 [ref=1x]
+  { InstDB::RWInfo::kCategoryGeneric   , 14, { 55, 54, 0 , 0 , 0 , 0  } }, // #44 [ref=1x]
+  { InstDB::RWInfo::kCategoryGeneric   , 15, { 3 , 6 , 0 , 0 , 0 , 0  } }, // #45 [ref=3x]
+  { InstDB::RWInfo::kCategoryGeneric   , 0 , { 56, 30, 0 , 0 , 0 , 0  } }, // #46 [ref=1x]
+  { InstDB::RWInfo::kCategoryGeneric   , 0 , { 58, 0 , 0 , 0 , 0 , 0  } }, // #47 [ref=1x]
+  { InstDB::RWInfo::kCategoryGeneric   , 23, { 59, 41, 0 , 0 , 0 , 0  } }, // #48 [ref=1x]
+  { InstDB::RWInfo::kCategoryGeneric   , 24, { 45, 10, 0 , 0 , 0 , 0  } }, // #49 [ref=3x]
+  { InstDB::RWInfo::kCategoryGeneric   , 25, { 36, 8 , 0 , 0 , 0 , 0  } }, // #50 [ref=2x]
+  { InstDB::RWInfo::kCategoryGeneric   , 26, { 60, 14, 0 , 0 , 0 , 0  } }, // #51 [ref=2x]
+  { InstDB::RWInfo::kCategoryGeneric   , 0 , { 59, 41, 0 , 0 , 0 , 0  } }, // #52 [ref=1x]
+  { InstDB::RWInfo::kCategoryGeneric   , 0 , { 45, 10, 0 , 0 , 0 , 0  } }, // #53 [ref=1x]
+  { InstDB::RWInfo::kCategoryGeneric   , 0 , { 36, 8 , 0 , 0 , 0 , 0  } }, // #54 [ref=3x]
+  { InstDB::RWInfo::kCategoryGeneric   , 0 , { 60, 14, 0 , 0 , 0 , 0  } }, // #55 [ref=1x]
+  { InstDB::RWInfo::kCategoryGeneric   , 0 , { 41, 41, 0 , 0 , 0 , 0  } }, // #56 [ref=2x]
+  { InstDB::RWInfo::kCategoryGeneric   , 0 , { 10, 10, 0 , 0 , 0 , 0  } }, // #57 [ref=2x]
+  { InstDB::RWInfo::kCategoryGeneric   , 0 , { 8 , 8 , 0 , 0 , 0 , 0  } }, // #58 [ref=2x]
+  { InstDB::RWInfo::kCategoryGeneric   , 0 , { 14, 14, 0 , 0 , 0 , 0  } }, // #59 [ref=2x]
+  { InstDB::RWInfo::kCategoryGeneric   , 27, { 4 , 3 , 0 , 0 , 0 , 0  } }, // #60 [ref=2x]
+  { InstDB::RWInfo::kCategoryGeneric   , 15, { 11, 6 , 0 , 0 , 0 , 0  } }, // #61 [ref=2x]
+  { InstDB::RWInfo::kCategoryGeneric   , 0 , { 4 , 3 , 0 , 0 , 0 , 0  } }, // #62 [ref=11x]
+  { InstDB::RWInfo::kCategoryGeneric   , 8 , { 12, 3 , 0 , 0 , 0 , 0  } }, // #63 [ref=1x]
+  { InstDB::RWInfo::kCategoryGeneric   , 0 , { 53, 21, 0 , 0 , 0 , 0  } }, // #64 [ref=1x]
+  { InstDB::RWInfo::kCategoryGeneric   , 0 , { 62, 0 , 0 , 0 , 0 , 0  } }, // #65 [ref=3x]
+  { InstDB::RWInfo::kCategoryMov       , 29, { 0 , 0 , 0 , 0 , 0 , 0  } }, // #66 [ref=1x]
+  { InstDB::RWInfo::kCategoryMovabs    , 0 , { 0 , 0 , 0 , 0 , 0 , 0  } }, // #67 [ref=1x]
+  { InstDB::RWInfo::kCategoryGeneric   , 30, { 11, 6 , 0 , 0 , 0 , 0  } }, // #68 [ref=6x]
+  { InstDB::RWInfo::kCategoryGeneric   , 0 , { 12, 3 , 0 , 0 , 0 , 0  } }, // #69 [ref=7x]
+  { InstDB::RWInfo::kCategoryGeneric   , 0 , { 49, 3 , 0 , 0 , 0 , 0  } }, // #70 [ref=11x]
+  { InstDB::RWInfo::kCategoryGeneric   , 0 , { 37, 66, 0 , 0 , 0 , 0  } }, // #71 [ref=1x]
+  { InstDB::RWInfo::kCategoryMovh64    , 12, { 0 , 0 , 0 , 0 , 0 , 0  } }, // #72 [ref=2x]
+  { InstDB::RWInfo::kCategoryGeneric   , 0 , { 67, 8 , 0 , 0 , 0 , 0  } }, // #73 [ref=1x]
+  { InstDB::RWInfo::kCategoryGeneric   , 12, { 37, 8 , 0 , 0 , 0 , 0  } }, // #74 [ref=8x]
+  { InstDB::RWInfo::kCategoryGeneric   , 0 , { 59, 6 , 0 , 0 , 0 , 0  } }, // #75 [ref=2x]
+  { InstDB::RWInfo::kCategoryGeneric   , 15, { 68, 6 , 0 , 0 , 0 , 0  } }, // #76 [ref=3x]
+  { InstDB::RWInfo::kCategoryGeneric   , 28, { 38, 10, 0 , 0 , 0 , 0  } }, // #77 [ref=3x]
+  { InstDB::RWInfo::kCategoryGeneric   , 14, { 69, 21, 0 , 0 , 0 , 0  } }, // #78 [ref=1x]
+  { InstDB::RWInfo::kCategoryGeneric   , 31, { 36, 8 , 0 , 0 , 0 , 0  } }, // #79 [ref=1x]
+  { InstDB::RWInfo::kCategoryGeneric   , 33, { 45, 10, 0 , 0 , 0 , 0  } }, // #80 [ref=1x]
+  { InstDB::RWInfo::kCategoryGeneric   , 16, { 12, 3 , 0 , 0 , 0 , 0  } }, // #81 [ref=2x]
+  { InstDB::RWInfo::kCategoryGeneric   , 0 , { 18, 30, 0 , 0 , 0 , 0  } }, // #82 [ref=1x]
+  { InstDB::RWInfo::kCategoryGeneric   , 11, { 3 , 3 , 0 , 0 , 0 , 0  } }, // #83 [ref=1x]
+  { InstDB::RWInfo::kCategoryGeneric   , 0 , { 54, 56, 0 , 0 , 0 , 0  } }, // #84 [ref=1x]
+  { InstDB::RWInfo::kCategoryGeneric   , 14, { 54, 72, 0 , 0 , 0 , 0  } }, // #85 [ref=1x]
+  { InstDB::RWInfo::kCategoryGeneric   , 4 , { 73, 8 , 0 , 0 , 0 , 0  } }, // #86 [ref=18x]
+  { InstDB::RWInfo::kCategoryGeneric   , 36, { 0 , 0 , 0 , 0 , 0 , 0  } }, // #87 [ref=1x]
+  { InstDB::RWInfo::kCategoryGeneric   , 3 , { 76, 6 , 0 , 0 , 0 , 0  } }, // #88 [ref=2x]
+  { InstDB::RWInfo::kCategoryVmov1_8   , 0 , { 0 , 0 , 0 , 0 , 0 , 0  } }, // #89 [ref=2x]
+  { InstDB::RWInfo::kCategoryGeneric   , 5 , { 11, 10, 0 , 0 , 0 , 0  } }, // #90 [ref=4x]
+  { InstDB::RWInfo::kCategoryGeneric   , 27, { 11, 14, 0 , 0 , 0 , 0  } }, // #91 [ref=2x]
+  { InstDB::RWInfo::kCategoryGeneric   , 0 , { 5 , 0 , 0 , 0 , 0 , 0  } }, // #92 [ref=2x]
+  { InstDB::RWInfo::kCategoryGeneric   , 3 , { 6 , 6 , 0 , 0 , 0 , 0  } }, // #93 [ref=1x]
+  { InstDB::RWInfo::kCategoryPunpcklxx , 38, { 0 , 0 , 0 , 0 , 0 , 0  } }, // #94 [ref=3x]
+  { InstDB::RWInfo::kCategoryGeneric   , 10, { 4 , 77, 0 , 0 , 0 , 0  } }, // #95 [ref=7x]
+  { InstDB::RWInfo::kCategoryGeneric   , 5 , { 38, 10, 0 , 0 , 0 , 0  } }, // #96 [ref=3x]
+  { InstDB::RWInfo::kCategoryGeneric   , 0 , { 36, 0 , 0 , 0 , 0 , 0  } }, // #97 [ref=1x]
+  { InstDB::RWInfo::kCategoryGeneric   , 0 , { 17, 52, 0 , 0 , 0 , 0  } }, // #98 [ref=1x]
+  { InstDB::RWInfo::kCategoryGeneric   , 0 , { 56, 22, 0 , 0 , 0 , 0  } }, // #99 [ref=1x]
+  { InstDB::RWInfo::kCategoryGeneric   , 0 , { 69, 56, 0 , 0 , 0 , 0  } }, // #100 [ref=1x]
+  { InstDB::RWInfo::kCategoryGeneric   , 8 , { 81, 3 , 0 , 0 , 0 , 0  } }, // #101 [ref=2x]
+  { InstDB::RWInfo::kCategoryGeneric   , 8 , { 49, 44, 0 , 0 , 0 , 0  } }, // #102 [ref=1x]
+  { InstDB::RWInfo::kCategoryGeneric   , 5 , { 82, 10, 0 , 0 , 0 , 0  } }, // #103 [ref=2x]
+  { InstDB::RWInfo::kCategoryGeneric   , 21, { 12, 14, 0 , 0 , 0 , 0  } }, // #104 [ref=2x]
+  { InstDB::RWInfo::kCategoryGeneric   , 15, { 83, 6 , 0 , 0 , 0 , 0  } }, // #105 [ref=2x]
+  { InstDB::RWInfo::kCategoryGeneric   , 15, { 12, 6 , 0 , 0 , 0 , 0  } }, // #106 [ref=4x]
+  { InstDB::RWInfo::kCategoryGeneric   , 43, { 81, 84, 0 , 0 , 0 , 0  } }, // #107 [ref=4x]
+  { InstDB::RWInfo::kCategoryGeneric   , 44, { 12, 8 , 0 , 0 , 0 , 0  } }, // #108 [ref=1x]
+  { InstDB::RWInfo::kCategoryGeneric   , 45, { 12, 10, 0 , 0 , 0 , 0  } }, // #109 [ref=1x]
+  { InstDB::RWInfo::kCategoryGeneric   , 27, { 14, 14, 0 , 0 , 0 , 0  } }, // #110 [ref=2x]
+  { InstDB::RWInfo::kCategoryGeneric   , 11, { 12, 3 , 0 , 0 , 0 , 0  } }, // #111 [ref=7x]
+  { InstDB::RWInfo::kCategoryVmov2_1   , 46, { 0 , 0 , 0 , 0 , 0 , 0  } }, // #112 [ref=19x]
+  { InstDB::RWInfo::kCategoryVmov1_2   , 16, { 0 , 0 , 0 , 0 , 0 , 0  } }, // #113 [ref=11x]
+  { InstDB::RWInfo::kCategoryVmov1_4   , 16, { 0 , 0 , 0 , 0 , 0 , 0  } }, // #114 [ref=2x]
+  { InstDB::RWInfo::kCategoryVmov4_1   , 47, { 0 , 0 , 0 , 0 , 0 , 0  } }, // #115 [ref=9x]
+  { InstDB::RWInfo::kCategoryGeneric   , 16, { 11, 3 , 0 , 0 , 0 , 0  } }, // #116 [ref=1x]
+  { InstDB::RWInfo::kCategoryGeneric   , 27, { 12, 14, 0 , 0 , 0 , 0  } }, // #117 [ref=5x]
+  { InstDB::RWInfo::kCategoryGeneric   , 5 , { 45, 10, 0 , 0 , 0 , 0  } }, // #118 [ref=1x]
+  { InstDB::RWInfo::kCategoryGeneric   , 14, { 4 , 3 , 0 , 0 , 0 , 0  } }, // #119 [ref=2x]
+  { InstDB::RWInfo::kCategoryGeneric   , 57, { 12, 3 , 0 , 0 , 0 , 0  } }, // #120 [ref=12x]
+  { InstDB::RWInfo::kCategoryVmovddup  , 38, { 0 , 0 , 0 , 0 , 0 , 0  } }, // #121 [ref=1x]
+  { InstDB::RWInfo::kCategoryGeneric   , 12, { 37, 66, 0 , 0 , 0 , 0  } }, // #122 [ref=2x]
+  { InstDB::RWInfo::kCategoryVmovmskpd , 0 , { 0 , 0 , 0 , 0 , 0 , 0  } }, // #123 [ref=1x]
+  { InstDB::RWInfo::kCategoryVmovmskps , 0 , { 0 , 0 , 0 , 0 , 0 , 0  } }, // #124 [ref=1x]
+  { InstDB::RWInfo::kCategoryGeneric   , 58, { 36, 8 , 0 , 0 , 0 , 0  } }, // #125 [ref=1x]
+  { InstDB::RWInfo::kCategoryGeneric   , 12, { 36, 8 , 0 , 0 , 0 , 0  } }, // #126 [ref=1x]
+  { InstDB::RWInfo::kCategoryGeneric   , 21, { 60, 14, 0 , 0 , 0 , 0  } }, // #127 [ref=1x]
+  { InstDB::RWInfo::kCategoryGeneric   , 28, { 45, 10, 0 , 0 , 0 , 0  } }, // #128 [ref=1x]
+  { InstDB::RWInfo::kCategoryGeneric   , 2 , { 3 , 3 , 0 , 0 , 0 , 0  } }, // #129 [ref=4x]
+  { InstDB::RWInfo::kCategoryGeneric   , 17, { 12, 41, 0 , 0 , 0 , 0  } }, // #130 [ref=1x]
+  { InstDB::RWInfo::kCategoryGeneric   , 0 , { 12, 8 , 0 , 0 , 0 , 0  } }, // #131 [ref=6x]
+  { InstDB::RWInfo::kCategoryGeneric   , 0 , { 36, 3 , 0 , 0 , 0 , 0  } }, // #132 [ref=4x]
+  { InstDB::RWInfo::kCategoryVmov1_4   , 61, { 0 , 0 , 0 , 0 , 0 , 0  } }, // #133 [ref=6x]
+  { InstDB::RWInfo::kCategoryVmov1_2   , 48, { 0 , 0 , 0 , 0 , 0 , 0  } }, // #134 [ref=9x]
+  { InstDB::RWInfo::kCategoryVmov1_8   , 62, { 0 , 0 , 0 , 0 , 0 , 0  } }, // #135 [ref=3x]
+  { InstDB::RWInfo::kCategoryVmov8_1   , 63, { 0 , 0 , 0 , 0 , 0 , 0  } }, // #136 [ref=2x]
+  { InstDB::RWInfo::kCategoryGeneric   , 14, { 49, 3 , 0 , 0 , 0 , 0  } }, // #137 [ref=2x]
+  { InstDB::RWInfo::kCategoryGeneric   , 0 , { 93, 6 , 0 , 0 , 0 , 0  } }, // #138 [ref=1x]
+  { InstDB::RWInfo::kCategoryGeneric   , 0 , { 93, 84, 0 , 0 , 0 , 0  } }, // #139 [ref=1x]
+  { InstDB::RWInfo::kCategoryGeneric   , 11, { 4 , 4 , 0 , 0 , 0 , 0  } }, // #140 [ref=1x]
+  { InstDB::RWInfo::kCategoryGeneric   , 57, { 4 , 4 , 0 , 0 , 0 , 0  } }  // #141 [ref=1x]
 };
 
 const InstDB::RWInfo InstDB::rw_info_b_table[] = {
   { InstDB::RWInfo::kCategoryGeneric   , 0 , { 0 , 0 , 0 , 0 , 0 , 0  } }, // #0 [ref=758x]
   { InstDB::RWInfo::kCategoryGeneric   , 0 , { 1 , 0 , 0 , 0 , 0 , 0  } }, // #1 [ref=5x]
-  { InstDB::RWInfo::kCategoryGeneric   , 3 , { 10, 5 , 0 , 0 , 0 , 0  } }, // #2 [ref=7x]
-  { InstDB::RWInfo::kCategoryGeneric   , 6 , { 11, 3 , 3 , 0 , 0 , 0  } }, // #3 [ref=190x]
-  { InstDB::RWInfo::kCategoryGeneric   , 2 , { 11, 3 , 3 , 0 , 0 , 0  } }, // #4 [ref=5x]
-  { InstDB::RWInfo::kCategoryGeneric   , 3 , { 4 , 5 , 0 , 0 , 0 , 0  } }, // #5 [ref=14x]
-  { InstDB::RWInfo::kCategoryGeneric   , 3 , { 4 , 5 , 14, 0 , 0 , 0  } }, // #6 [ref=4x]
-  { InstDB::RWInfo::kCategoryGeneric   , 0 , { 2 , 0 , 0 , 0 , 0 , 0  } }, // #7 [ref=1x]
+  { InstDB::RWInfo::kCategoryGeneric   , 3 , { 11, 6 , 0 , 0 , 0 , 0  } }, // #2 [ref=7x]
+  { InstDB::RWInfo::kCategoryGeneric   , 6 , { 12, 3 , 3 , 0 , 0 , 0  } }, // #3 [ref=190x]
+  { InstDB::RWInfo::kCategoryGeneric   , 2 , { 12, 3 , 3 , 0 , 0 , 0  } }, // #4 [ref=5x]
+  { InstDB::RWInfo::kCategoryGeneric   , 3 , { 5 , 6 , 0 , 0 , 0 , 0  } }, // #5 [ref=14x]
+  { InstDB::RWInfo::kCategoryGeneric   , 3 , { 5 , 6 , 15, 0 , 0 , 0  } }, // #6 [ref=4x]
+  { InstDB::RWInfo::kCategoryGeneric   , 0 , { 4 , 0 , 0 , 0 , 0 , 0  } }, // #7 [ref=1x]
   { InstDB::RWInfo::kCategoryGeneric   , 11, { 3 , 0 , 0 , 0 , 0 , 0  } }, // #8 [ref=2x]
-  { InstDB::RWInfo::kCategoryGeneric   , 0 , { 18, 0 , 0 , 0 , 0 , 0  } }, // #9 [ref=1x]
+  { InstDB::RWInfo::kCategoryGeneric   , 0 , { 19, 0 , 0 , 0 , 0 , 0  } }, // #9 [ref=1x]
   { InstDB::RWInfo::kCategoryGeneric   , 8 , { 3 , 0 , 0 , 0 , 0 , 0  } }, // #10 [ref=21x]
-  { InstDB::RWInfo::kCategoryGeneric   , 12, { 7 , 0 , 0 , 0 , 0 , 0  } }, // #11 [ref=5x]
-  { InstDB::RWInfo::kCategoryGeneric   , 13, { 19, 0 , 0 , 0 , 0 , 0  } }, // #12 [ref=1x]
-  { InstDB::RWInfo::kCategoryGeneric   , 0 , { 2 , 2 , 3 , 0 , 0 , 0  } }, // #13 [ref=16x]
-  { InstDB::RWInfo::kCategoryGeneric   , 4 , { 6 , 7 , 0 , 0 , 0 , 0  } }, // #14 [ref=1x]
-  { InstDB::RWInfo::kCategoryGeneric   , 5 , { 8 , 9 , 0 , 0 , 0 , 0  } }, // #15 [ref=1x]
-  { InstDB::RWInfo::kCategoryGeneric   , 11, { 2 , 3 , 22, 0 , 0 , 0  } }, // #16 [ref=1x]
-  { InstDB::RWInfo::kCategoryGeneric   , 15, { 4 , 23, 18, 24, 25, 0  } }, // #17 [ref=1x]
-  { InstDB::RWInfo::kCategoryGeneric   , 12, { 26, 27, 28, 29, 30, 0  } }, // #18 [ref=1x]
-  { InstDB::RWInfo::kCategoryGeneric   , 0 , { 28, 31, 32, 16, 0 , 0  } }, // #19 [ref=1x]
-  { InstDB::RWInfo::kCategoryGeneric   , 0 , { 28, 0 , 0 , 0 , 0 , 0  } }, // #20 [ref=2x]
-  { InstDB::RWInfo::kCategoryGeneric   , 10, { 2 , 0 , 0 , 0 , 0 , 0  } }, // #21 [ref=4x]
-  { InstDB::RWInfo::kCategoryGeneric   , 6 , { 41, 22, 3 , 0 , 0 , 0  } }, // #22 [ref=2x]
-  { InstDB::RWInfo::kCategoryGeneric   , 18, { 44, 5 , 0 , 0 , 0 , 0  } }, // #23 [ref=4x]
-  { InstDB::RWInfo::kCategoryGeneric   , 0 , { 4 , 0 , 0 , 0 , 0 , 0  } }, // #24 [ref=1x]
+  { InstDB::RWInfo::kCategoryGeneric   , 12, { 8 , 0 , 0 , 0 , 0 , 0  } }, // #11 [ref=5x]
+  { InstDB::RWInfo::kCategoryGeneric   , 13, { 20, 0 , 0 , 0 , 0 , 0  } }, // #12 [ref=1x]
+  { InstDB::RWInfo::kCategoryGeneric   , 0 , { 2 , 4 , 3 , 0 , 0 , 0  } }, // #13 [ref=16x]
+  { InstDB::RWInfo::kCategoryGeneric   , 4 , { 7 , 8 , 0 , 0 , 0 , 0  } }, // #14 [ref=1x]
+  { InstDB::RWInfo::kCategoryGeneric   , 5 , { 9 , 10, 0 , 0 , 0 , 0  } }, // #15 [ref=1x]
+  { InstDB::RWInfo::kCategoryGeneric   , 11, { 4 , 3 , 23, 0 , 0 , 0  } }, // #16 [ref=1x]
+  { InstDB::RWInfo::kCategoryGeneric   , 15, { 24, 25, 19, 26, 27, 0  } }, // #17 [ref=1x]
+  { InstDB::RWInfo::kCategoryGeneric   , 12, { 7 , 28, 29, 30, 31, 0  } }, // #18 [ref=1x]
+  { InstDB::RWInfo::kCategoryGeneric   , 0 , { 29, 32, 33, 17, 0 , 0  } }, // #19 [ref=1x]
+  { InstDB::RWInfo::kCategoryGeneric   , 0 , { 29, 0 , 0 , 0 , 0 , 0  } }, // #20 [ref=2x]
+  { InstDB::RWInfo::kCategoryGeneric   , 10, { 4 , 0 , 0 , 0 , 0 , 0  } }, // #21 [ref=4x]
+  { InstDB::RWInfo::kCategoryGeneric   , 6 , { 42, 23, 3 , 0 , 0 , 0  } }, // #22 [ref=2x]
+  { InstDB::RWInfo::kCategoryGeneric   , 18, { 45, 6 , 0 , 0 , 0 , 0  } }, // #23 [ref=4x]
+  { InstDB::RWInfo::kCategoryGeneric   , 0 , { 5 , 0 , 0 , 0 , 0 , 0  } }, // #24 [ref=1x]
   { InstDB::RWInfo::kCategoryGeneric   , 14, { 3 , 0 , 0 , 0 , 0 , 0  } }, // #25 [ref=17x]
-  { InstDB::RWInfo::kCategoryGeneric   , 0 , { 45, 0 , 0 , 0 , 0 , 0  } }, // #26 [ref=16x]
-  { InstDB::RWInfo::kCategoryGeneric   , 19, { 46, 0 , 0 , 0 , 0 , 0  } }, // #27 [ref=1x]
-  { InstDB::RWInfo::kCategoryGeneric   , 19, { 47, 0 , 0 , 0 , 0 , 0  } }, // #28 [ref=1x]
+  { InstDB::RWInfo::kCategoryGeneric   , 0 , { 46, 0 , 0 , 0 , 0 , 0  } }, // #26 [ref=16x]
+  { InstDB::RWInfo::kCategoryGeneric   , 19, { 47, 0 , 0 , 0 , 0 , 0  } }, // #27 [ref=1x]
+  { InstDB::RWInfo::kCategoryGeneric   , 19, { 48, 0 , 0 , 0 , 0 , 0  } }, // #28 [ref=1x]
   { InstDB::RWInfo::kCategoryGeneric   , 20, { 3 , 0 , 0 , 0 , 0 , 0  } }, // #29 [ref=3x]
-  { InstDB::RWInfo::kCategoryGeneric   , 0 , { 46, 0 , 0 , 0 , 0 , 0  } }, // #30 [ref=6x]
-  { InstDB::RWInfo::kCategoryGeneric   , 14, { 11, 0 , 0 , 0 , 0 , 0  } }, // #31 [ref=3x]
-  { InstDB::RWInfo::kCategoryGeneric   , 21, { 13, 0 , 0 , 0 , 0 , 0  } }, // #32 [ref=1x]
-  { InstDB::RWInfo::kCategoryGeneric   , 8 , { 11, 0 , 0 , 0 , 0 , 0  } }, // #33 [ref=8x]
-  { InstDB::RWInfo::kCategoryGeneric   , 21, { 48, 0 , 0 , 0 , 0 , 0  } }, // #34 [ref=2x]
-  { InstDB::RWInfo::kCategoryGeneric   , 7 , { 49, 0 , 0 , 0 , 0 , 0  } }, // #35 [ref=2x]
-  { InstDB::RWInfo::kCategoryGeneric   , 20, { 11, 0 , 0 , 0 , 0 , 0  } }, // #36 [ref=2x]
+  { InstDB::RWInfo::kCategoryGeneric   , 0 , { 47, 0 , 0 , 0 , 0 , 0  } }, // #30 [ref=6x]
+  { InstDB::RWInfo::kCategoryGeneric   , 14, { 49, 0 , 0 , 0 , 0 , 0  } }, // #31 [ref=3x]
+  { InstDB::RWInfo::kCategoryGeneric   , 21, { 14, 0 , 0 , 0 , 0 , 0  } }, // #32 [ref=1x]
+  { InstDB::RWInfo::kCategoryGeneric   , 8 , { 49, 0 , 0 , 0 , 0 , 0  } }, // #33 [ref=8x]
+  { InstDB::RWInfo::kCategoryGeneric   , 21, { 50, 0 , 0 , 0 , 0 , 0  } }, // #34 [ref=2x]
+  { InstDB::RWInfo::kCategoryGeneric   , 7 , { 51, 0 , 0 , 0 , 0 , 0  } }, // #35 [ref=2x]
+  { InstDB::RWInfo::kCategoryGeneric   , 20, { 12, 0 , 0 , 0 , 0 , 0  } }, // #36 [ref=2x]
   { InstDB::RWInfo::kCategoryImul      , 22, { 0 , 0 , 0 , 0 , 0 , 0  } }, // #37 [ref=1x]
-  { InstDB::RWInfo::kCategoryGeneric   , 0 , { 40, 0 , 0 , 0 , 0 , 0  } }, // #38 [ref=2x]
-  { InstDB::RWInfo::kCategoryGeneric   , 5 , { 4 , 9 , 0 , 0 , 0 , 0  } }, // #39 [ref=2x]
-  { InstDB::RWInfo::kCategoryGeneric   , 0 , { 4 , 5 , 0 , 0 , 0 , 0  } }, // #40 [ref=1x]
-  { InstDB::RWInfo::kCategoryGeneric   , 0 , { 54, 55, 56, 0 , 0 , 0  } }, // #41 [ref=1x]
-  { InstDB::RWInfo::kCategoryGeneric   , 0 , { 57, 40, 40, 0 , 0 , 0  } }, // #42 [ref=6x]
-  { InstDB::RWInfo::kCategoryGeneric   , 0 , { 44, 9 , 9 , 0 , 0 , 0  } }, // #43 [ref=6x]
-  { InstDB::RWInfo::kCategoryGeneric   , 0 , { 35, 7 , 7 , 0 , 0 , 0  } }, // #44 [ref=6x]
-  { InstDB::RWInfo::kCategoryGeneric   , 0 , { 48, 13, 13, 0 , 0 , 0  } }, // #45 [ref=6x]
-  { InstDB::RWInfo::kCategoryGeneric   , 0 , { 57, 40, 0 , 0 , 0 , 0  } }, // #46 [ref=2x]
-  { InstDB::RWInfo::kCategoryGeneric   , 0 , { 44, 9 , 0 , 0 , 0 , 0  } }, // #47 [ref=2x]
-  { InstDB::RWInfo::kCategoryGeneric   , 0 , { 35, 7 , 0 , 0 , 0 , 0  } }, // #48 [ref=2x]
-  { InstDB::RWInfo::kCategoryGeneric   , 0 , { 48, 13, 0 , 0 , 0 , 0  } }, // #49 [ref=2x]
-  { InstDB::RWInfo::kCategoryGeneric   , 0 , { 48, 40, 40, 0 , 0 , 0  } }, // #50 [ref=1x]
-  { InstDB::RWInfo::kCategoryGeneric   , 0 , { 35, 9 , 9 , 0 , 0 , 0  } }, // #51 [ref=1x]
-  { InstDB::RWInfo::kCategoryGeneric   , 0 , { 44, 13, 13, 0 , 0 , 0  } }, // #52 [ref=1x]
-  { InstDB::RWInfo::kCategoryGeneric   , 0 , { 58, 0 , 0 , 0 , 0 , 0  } }, // #53 [ref=1x]
-  { InstDB::RWInfo::kCategoryGeneric   , 28, { 9 , 0 , 0 , 0 , 0 , 0  } }, // #54 [ref=2x]
-  { InstDB::RWInfo::kCategoryGeneric   , 13, { 43, 0 , 0 , 0 , 0 , 0  } }, // #55 [ref=1x]
-  { InstDB::RWInfo::kCategoryGeneric   , 7 , { 13, 0 , 0 , 0 , 0 , 0  } }, // #56 [ref=5x]
+  { InstDB::RWInfo::kCategoryGeneric   , 0 , { 41, 0 , 0 , 0 , 0 , 0  } }, // #38 [ref=2x]
+  { InstDB::RWInfo::kCategoryGeneric   , 5 , { 5 , 10, 0 , 0 , 0 , 0  } }, // #39 [ref=2x]
+  { InstDB::RWInfo::kCategoryGeneric   , 0 , { 5 , 6 , 0 , 0 , 0 , 0  } }, // #40 [ref=1x]
+  { InstDB::RWInfo::kCategoryGeneric   , 0 , { 56, 57, 58, 0 , 0 , 0  } }, // #41 [ref=1x]
+  { InstDB::RWInfo::kCategoryGeneric   , 0 , { 59, 41, 41, 0 , 0 , 0  } }, // #42 [ref=6x]
+  { InstDB::RWInfo::kCategoryGeneric   , 0 , { 45, 10, 10, 0 , 0 , 0  } }, // #43 [ref=6x]
+  { InstDB::RWInfo::kCategoryGeneric   , 0 , { 36, 8 , 8 , 0 , 0 , 0  } }, // #44 [ref=6x]
+  { InstDB::RWInfo::kCategoryGeneric   , 0 , { 60, 14, 14, 0 , 0 , 0  } }, // #45 [ref=6x]
+  { InstDB::RWInfo::kCategoryGeneric   , 0 , { 59, 41, 0 , 0 , 0 , 0  } }, // #46 [ref=2x]
+  { InstDB::RWInfo::kCategoryGeneric   , 0 , { 45, 10, 0 , 0 , 0 , 0  } }, // #47 [ref=2x]
+  { InstDB::RWInfo::kCategoryGeneric   , 0 , { 36, 8 , 0 , 0 , 0 , 0  } }, // #48 [ref=2x]
+  { InstDB::RWInfo::kCategoryGeneric   , 0 , { 60, 14, 0 , 0 , 0 , 0  } }, // #49 [ref=2x]
+  { InstDB::RWInfo::kCategoryGeneric   , 0 , { 60, 41, 41, 0 , 0 , 0  } }, // #50 [ref=1x]
+  { InstDB::RWInfo::kCategoryGeneric   , 0 , { 36, 10, 10, 0 , 0 , 0  } }, // #51 [ref=1x]
+  { InstDB::RWInfo::kCategoryGeneric   , 0 , { 45, 14, 14, 0 , 0 , 0  } }, // #52 [ref=1x]
+  { InstDB::RWInfo::kCategoryGeneric   , 0 , { 61, 0 , 0 , 0 , 0 , 0  } }, // #53 [ref=1x]
+  { InstDB::RWInfo::kCategoryGeneric   , 28, { 10, 0 , 0 , 0 , 0 , 0  } }, // #54 [ref=2x]
+  { InstDB::RWInfo::kCategoryGeneric   , 13, { 44, 0 , 0 , 0 , 0 , 0  } }, // #55 [ref=1x]
+  { InstDB::RWInfo::kCategoryGeneric   , 7 , { 14, 0 , 0 , 0 , 0 , 0  } }, // #56 [ref=5x]
   { InstDB::RWInfo::kCategoryGeneric   , 0 , { 3 , 0 , 0 , 0 , 0 , 0  } }, // #57 [ref=3x]
-  { InstDB::RWInfo::kCategoryGeneric   , 5 , { 3 , 9 , 0 , 0 , 0 , 0  } }, // #58 [ref=2x]
-  { InstDB::RWInfo::kCategoryGeneric   , 15, { 5 , 5 , 60, 0 , 0 , 0  } }, // #59 [ref=2x]
-  { InstDB::RWInfo::kCategoryGeneric   , 12, { 7 , 7 , 61, 0 , 0 , 0  } }, // #60 [ref=1x]
-  { InstDB::RWInfo::kCategoryGeneric   , 8 , { 62, 29, 55, 0 , 0 , 0  } }, // #61 [ref=2x]
+  { InstDB::RWInfo::kCategoryGeneric   , 5 , { 3 , 10, 0 , 0 , 0 , 0  } }, // #58 [ref=2x]
+  { InstDB::RWInfo::kCategoryGeneric   , 15, { 6 , 6 , 63, 0 , 0 , 0  } }, // #59 [ref=2x]
+  { InstDB::RWInfo::kCategoryGeneric   , 12, { 8 , 8 , 64, 0 , 0 , 0  } }, // #60 [ref=1x]
+  { InstDB::RWInfo::kCategoryGeneric   , 8 , { 65, 30, 57, 0 , 0 , 0  } }, // #61 [ref=2x]
   { InstDB::RWInfo::kCategoryGeneric   , 32, { 0 , 0 , 0 , 0 , 0 , 0  } }, // #62 [ref=2x]
-  { InstDB::RWInfo::kCategoryGeneric   , 6 , { 66, 22, 3 , 0 , 0 , 0  } }, // #63 [ref=1x]
-  { InstDB::RWInfo::kCategoryGeneric   , 6 , { 11, 11, 3 , 67, 0 , 0  } }, // #64 [ref=1x]
-  { InstDB::RWInfo::kCategoryGeneric   , 0 , { 17, 29, 30, 0 , 0 , 0  } }, // #65 [ref=1x]
+  { InstDB::RWInfo::kCategoryGeneric   , 6 , { 70, 23, 3 , 0 , 0 , 0  } }, // #63 [ref=1x]
+  { InstDB::RWInfo::kCategoryGeneric   , 6 , { 12, 12, 3 , 71, 0 , 0  } }, // #64 [ref=1x]
+  { InstDB::RWInfo::kCategoryGeneric   , 0 , { 18, 30, 31, 0 , 0 , 0  } }, // #65 [ref=1x]
   { InstDB::RWInfo::kCategoryGeneric   , 10, { 3 , 0 , 0 , 0 , 0 , 0  } }, // #66 [ref=3x]
-  { InstDB::RWInfo::kCategoryGeneric   , 2 , { 2 , 3 , 0 , 0 , 0 , 0  } }, // #67 [ref=1x]
-  { InstDB::RWInfo::kCategoryGeneric   , 3 , { 5 , 5 , 0 , 69, 17, 55 } }, // #68 [ref=2x]
-  { InstDB::RWInfo::kCategoryGeneric   , 3 , { 5 , 5 , 0 , 70, 17, 55 } }, // #69 [ref=2x]
-  { InstDB::RWInfo::kCategoryGeneric   , 3 , { 5 , 5 , 0 , 69, 0 , 0  } }, // #70 [ref=2x]
-  { InstDB::RWInfo::kCategoryGeneric   , 3 , { 5 , 5 , 0 , 70, 0 , 0  } }, // #71 [ref=2x]
-  { InstDB::RWInfo::kCategoryGeneric   , 34, { 57, 5 , 0 , 0 , 0 , 0  } }, // #72 [ref=2x]
-  { InstDB::RWInfo::kCategoryGeneric   , 35, { 35, 5 , 0 , 0 , 0 , 0  } }, // #73 [ref=2x]
-  { InstDB::RWInfo::kCategoryGeneric   , 37, { 48, 3 , 0 , 0 , 0 , 0  } }, // #74 [ref=1x]
-  { InstDB::RWInfo::kCategoryGeneric   , 17, { 4 , 40, 0 , 0 , 0 , 0  } }, // #75 [ref=1x]
-  { InstDB::RWInfo::kCategoryGeneric   , 4 , { 4 , 7 , 0 , 0 , 0 , 0  } }, // #76 [ref=1x]
-  { InstDB::RWInfo::kCategoryGeneric   , 27, { 2 , 13, 0 , 0 , 0 , 0  } }, // #77 [ref=1x]
-  { InstDB::RWInfo::kCategoryGeneric   , 10, { 11, 0 , 0 , 0 , 0 , 0  } }, // #78 [ref=1x]
-  { InstDB::RWInfo::kCategoryGeneric   , 4 , { 35, 7 , 0 , 0 , 0 , 0  } }, // #79 [ref=2x]
-  { InstDB::RWInfo::kCategoryGeneric   , 0 , { 11, 0 , 0 , 0 , 0 , 0  } }, // #80 [ref=6x]
-  { InstDB::RWInfo::kCategoryGeneric   , 0 , { 16, 50, 29, 0 , 0 , 0  } }, // #81 [ref=5x]
-  { InstDB::RWInfo::kCategoryGeneric   , 0 , { 44, 0 , 0 , 0 , 0 , 0  } }, // #82 [ref=1x]
-  { InstDB::RWInfo::kCategoryGeneric   , 0 , { 35, 0 , 0 , 0 , 0 , 0  } }, // #83 [ref=1x]
-  { InstDB::RWInfo::kCategoryGeneric   , 0 , { 16, 50, 69, 0 , 0 , 0  } }, // #84 [ref=1x]
-  { InstDB::RWInfo::kCategoryGeneric   , 2 , { 11, 3 , 0 , 0 , 0 , 0  } }, // #85 [ref=19x]
-  { InstDB::RWInfo::kCategoryGeneric   , 4 , { 36, 7 , 0 , 0 , 0 , 0  } }, // #86 [ref=1x]
-  { InstDB::RWInfo::kCategoryGeneric   , 5 , { 37, 9 , 0 , 0 , 0 , 0  } }, // #87 [ref=1x]
-  { InstDB::RWInfo::kCategoryGeneric   , 0 , { 73, 0 , 0 , 0 , 0 , 0  } }, // #88 [ref=1x]
-  { InstDB::RWInfo::kCategoryGeneric   , 0 , { 7 , 0 , 0 , 0 , 0 , 0  } }, // #89 [ref=1x]
-  { InstDB::RWInfo::kCategoryGeneric   , 34, { 74, 0 , 0 , 0 , 0 , 0  } }, // #90 [ref=16x]
-  { InstDB::RWInfo::kCategoryGeneric   , 11, { 2 , 3 , 72, 0 , 0 , 0  } }, // #91 [ref=2x]
-  { InstDB::RWInfo::kCategoryGeneric   , 39, { 11, 0 , 0 , 0 , 0 , 0  } }, // #92 [ref=3x]
-  { InstDB::RWInfo::kCategoryGeneric   , 28, { 44, 0 , 0 , 0 , 0 , 0  } }, // #93 [ref=2x]
-  { InstDB::RWInfo::kCategoryGeneric   , 13, { 42, 0 , 0 , 0 , 0 , 0  } }, // #94 [ref=1x]
-  { InstDB::RWInfo::kCategoryGeneric   , 0 , { 75, 43, 43, 0 , 0 , 0  } }, // #95 [ref=8x]
-  { InstDB::RWInfo::kCategoryGeneric   , 0 , { 42, 0 , 0 , 0 , 0 , 0  } }, // #96 [ref=1x]
-  { InstDB::RWInfo::kCategoryGeneric   , 0 , { 9 , 55, 17, 0 , 0 , 0  } }, // #97 [ref=2x]
-  { InstDB::RWInfo::kCategoryGeneric   , 40, { 10, 5 , 7 , 0 , 0 , 0  } }, // #98 [ref=9x]
-  { InstDB::RWInfo::kCategoryGeneric   , 41, { 10, 5 , 13, 0 , 0 , 0  } }, // #99 [ref=9x]
-  { InstDB::RWInfo::kCategoryGeneric   , 42, { 10, 5 , 9 , 0 , 0 , 0  } }, // #100 [ref=9x]
-  { InstDB::RWInfo::kCategoryGeneric   , 6 , { 11, 3 , 3 , 3 , 0 , 0  } }, // #101 [ref=3x]
-  { InstDB::RWInfo::kCategoryGeneric   , 6 , { 35, 3 , 3 , 0 , 0 , 0  } }, // #102 [ref=18x]
-  { InstDB::RWInfo::kCategoryGeneric   , 40, { 11, 5 , 7 , 0 , 0 , 0  } }, // #103 [ref=1x]
-  { InstDB::RWInfo::kCategoryGeneric   , 41, { 35, 13, 13, 0 , 0 , 0  } }, // #104 [ref=1x]
-  { InstDB::RWInfo::kCategoryGeneric   , 42, { 11, 5 , 9 , 0 , 0 , 0  } }, // #105 [ref=1x]
+  { InstDB::RWInfo::kCategoryGeneric   , 2 , { 4 , 3 , 0 , 0 , 0 , 0  } }, // #67 [ref=1x]
+  { InstDB::RWInfo::kCategoryGeneric   , 3 , { 6 , 6 , 0 , 74, 18, 57 } }, // #68 [ref=2x]
+  { InstDB::RWInfo::kCategoryGeneric   , 3 , { 6 , 6 , 0 , 75, 18, 57 } }, // #69 [ref=2x]
+  { InstDB::RWInfo::kCategoryGeneric   , 3 , { 6 , 6 , 0 , 74, 0 , 0  } }, // #70 [ref=2x]
+  { InstDB::RWInfo::kCategoryGeneric   , 3 , { 6 , 6 , 0 , 75, 0 , 0  } }, // #71 [ref=2x]
+  { InstDB::RWInfo::kCategoryGeneric   , 34, { 59, 6 , 0 , 0 , 0 , 0  } }, // #72 [ref=2x]
+  { InstDB::RWInfo::kCategoryGeneric   , 35, { 36, 6 , 0 , 0 , 0 , 0  } }, // #73 [ref=2x]
+  { InstDB::RWInfo::kCategoryGeneric   , 37, { 60, 3 , 0 , 0 , 0 , 0  } }, // #74 [ref=1x]
+  { InstDB::RWInfo::kCategoryGeneric   , 17, { 5 , 41, 0 , 0 , 0 , 0  } }, // #75 [ref=1x]
+  { InstDB::RWInfo::kCategoryGeneric   , 4 , { 5 , 8 , 0 , 0 , 0 , 0  } }, // #76 [ref=1x]
+  { InstDB::RWInfo::kCategoryGeneric   , 27, { 4 , 14, 0 , 0 , 0 , 0  } }, // #77 [ref=1x]
+  { InstDB::RWInfo::kCategoryGeneric   , 10, { 12, 0 , 0 , 0 , 0 , 0  } }, // #78 [ref=1x]
+  { InstDB::RWInfo::kCategoryGeneric   , 4 , { 36, 8 , 0 , 0 , 0 , 0  } }, // #79 [ref=2x]
+  { InstDB::RWInfo::kCategoryGeneric   , 0 , { 12, 0 , 0 , 0 , 0 , 0  } }, // #80 [ref=6x]
+  { InstDB::RWInfo::kCategoryGeneric   , 0 , { 17, 52, 30, 0 , 0 , 0  } }, // #81 [ref=5x]
+  { InstDB::RWInfo::kCategoryGeneric   , 0 , { 45, 0 , 0 , 0 , 0 , 0  } }, // #82 [ref=1x]
+  { InstDB::RWInfo::kCategoryGeneric   , 0 , { 36, 0 , 0 , 0 , 0 , 0  } }, // #83 [ref=1x]
+  { InstDB::RWInfo::kCategoryGeneric   , 0 , { 17, 52, 74, 0 , 0 , 0  } }, // #84 [ref=1x]
+  { InstDB::RWInfo::kCategoryGeneric   , 2 , { 12, 3 , 0 , 0 , 0 , 0  } }, // #85 [ref=19x]
+  { InstDB::RWInfo::kCategoryGeneric   , 4 , { 37, 8 , 0 , 0 , 0 , 0  } }, // #86 [ref=1x]
+  { InstDB::RWInfo::kCategoryGeneric   , 5 , { 38, 10, 0 , 0 , 0 , 0  } }, // #87 [ref=1x]
+  { InstDB::RWInfo::kCategoryGeneric   , 0 , { 78, 0 , 0 , 0 , 0 , 0  } }, // #88 [ref=1x]
+  { InstDB::RWInfo::kCategoryGeneric   , 0 , { 8 , 0 , 0 , 0 , 0 , 0  } }, // #89 [ref=1x]
+  { InstDB::RWInfo::kCategoryGeneric   , 34, { 79, 0 , 0 , 0 , 0 , 0  } }, // #90 [ref=16x]
+  { InstDB::RWInfo::kCategoryGeneric   , 11, { 4 , 3 , 77, 0 , 0 , 0  } }, // #91 [ref=2x]
+  { InstDB::RWInfo::kCategoryGeneric   , 39, { 12, 0 , 0 , 0 , 0 , 0  } }, // #92 [ref=3x]
+  { InstDB::RWInfo::kCategoryGeneric   , 28, { 38, 0 , 0 , 0 , 0 , 0  } }, // #93 [ref=2x]
+  { InstDB::RWInfo::kCategoryGeneric   , 13, { 43, 0 , 0 , 0 , 0 , 0  } }, // #94 [ref=1x]
+  { InstDB::RWInfo::kCategoryGeneric   , 0 , { 80, 44, 44, 0 , 0 , 0  } }, // #95 [ref=8x]
+  { InstDB::RWInfo::kCategoryGeneric   , 0 , { 81, 0 , 0 , 0 , 0 , 0  } }, // #96 [ref=1x]
+  { InstDB::RWInfo::kCategoryGeneric   , 0 , { 10, 57, 18, 0 , 0 , 0  } }, // #97 [ref=2x]
+  { InstDB::RWInfo::kCategoryGeneric   , 40, { 11, 6 , 8 , 0 , 0 , 0  } }, // #98 [ref=9x]
+  { InstDB::RWInfo::kCategoryGeneric   , 41, { 11, 6 , 14, 0 , 0 , 0  } }, // #99 [ref=9x]
+  { InstDB::RWInfo::kCategoryGeneric   , 42, { 11, 6 , 10, 0 , 0 , 0  } }, // #100 [ref=9x]
+  { InstDB::RWInfo::kCategoryGeneric   , 6 , { 12, 3 , 3 , 3 , 0 , 0  } }, // #101 [ref=3x]
+  { InstDB::RWInfo::kCategoryGeneric   , 6 , { 36, 3 , 3 , 0 , 0 , 0  } }, // #102 [ref=18x]
+  { InstDB::RWInfo::kCategoryGeneric   , 40, { 12, 6 , 8 , 0 , 0 , 0  } }, // #103 [ref=1x]
+  { InstDB::RWInfo::kCategoryGeneric   , 41, { 36, 14, 14, 0 , 0 , 0  } }, // #104 [ref=1x]
+  { InstDB::RWInfo::kCategoryGeneric   , 42, { 12, 6 , 10, 0 , 0 , 0  } }, // #105 [ref=1x]
   { InstDB::RWInfo::kCategoryVmov1_2   , 48, { 0 , 0 , 0 , 0 , 0 , 0  } }, // #106 [ref=1x]
-  { InstDB::RWInfo::kCategoryGeneric   , 40, { 10, 79, 7 , 0 , 0 , 0  } }, // #107 [ref=1x]
-  { InstDB::RWInfo::kCategoryGeneric   , 41, { 10, 5 , 5 , 0 , 0 , 0  } }, // #108 [ref=1x]
-  { InstDB::RWInfo::kCategoryGeneric   , 49, { 10, 63, 3 , 0 , 0 , 0  } }, // #109 [ref=2x]
-  { InstDB::RWInfo::kCategoryGeneric   , 49, { 10, 3 , 3 , 0 , 0 , 0  } }, // #110 [ref=2x]
-  { InstDB::RWInfo::kCategoryGeneric   , 49, { 10, 79, 3 , 0 , 0 , 0  } }, // #111 [ref=2x]
-  { InstDB::RWInfo::kCategoryGeneric   , 42, { 10, 63, 9 , 0 , 0 , 0  } }, // #112 [ref=1x]
-  { InstDB::RWInfo::kCategoryGeneric   , 42, { 10, 5 , 5 , 0 , 0 , 0  } }, // #113 [ref=1x]
-  { InstDB::RWInfo::kCategoryGeneric   , 6 , { 2 , 3 , 3 , 0 , 0 , 0  } }, // #114 [ref=93x]
-  { InstDB::RWInfo::kCategoryGeneric   , 50, { 10, 5 , 5 , 0 , 0 , 0  } }, // #115 [ref=9x]
-  { InstDB::RWInfo::kCategoryGeneric   , 51, { 10, 78, 0 , 0 , 0 , 0  } }, // #116 [ref=2x]
-  { InstDB::RWInfo::kCategoryGeneric   , 51, { 10, 3 , 0 , 0 , 0 , 0  } }, // #117 [ref=4x]
-  { InstDB::RWInfo::kCategoryGeneric   , 52, { 77, 43, 0 , 0 , 0 , 0  } }, // #118 [ref=4x]
-  { InstDB::RWInfo::kCategoryGeneric   , 6 , { 80, 3 , 3 , 0 , 0 , 0  } }, // #119 [ref=4x]
-  { InstDB::RWInfo::kCategoryGeneric   , 42, { 81, 5 , 5 , 0 , 0 , 0  } }, // #120 [ref=3x]
-  { InstDB::RWInfo::kCategoryGeneric   , 40, { 4 , 63, 7 , 0 , 0 , 0  } }, // #121 [ref=1x]
-  { InstDB::RWInfo::kCategoryGeneric   , 42, { 4 , 79, 9 , 0 , 0 , 0  } }, // #122 [ref=1x]
-  { InstDB::RWInfo::kCategoryGeneric   , 40, { 6 , 7 , 7 , 0 , 0 , 0  } }, // #123 [ref=11x]
-  { InstDB::RWInfo::kCategoryGeneric   , 41, { 82, 5 , 5 , 0 , 0 , 0  } }, // #124 [ref=6x]
-  { InstDB::RWInfo::kCategoryGeneric   , 42, { 8 , 9 , 9 , 0 , 0 , 0  } }, // #125 [ref=11x]
-  { InstDB::RWInfo::kCategoryGeneric   , 53, { 11, 3 , 3 , 3 , 0 , 0  } }, // #126 [ref=15x]
-  { InstDB::RWInfo::kCategoryGeneric   , 54, { 35, 7 , 7 , 7 , 0 , 0  } }, // #127 [ref=4x]
-  { InstDB::RWInfo::kCategoryGeneric   , 55, { 44, 9 , 9 , 9 , 0 , 0  } }, // #128 [ref=4x]
-  { InstDB::RWInfo::kCategoryGeneric   , 41, { 82, 5 , 13, 0 , 0 , 0  } }, // #129 [ref=6x]
-  { InstDB::RWInfo::kCategoryGeneric   , 42, { 83, 5 , 5 , 0 , 0 , 0  } }, // #130 [ref=1x]
-  { InstDB::RWInfo::kCategoryGeneric   , 40, { 26, 7 , 7 , 0 , 0 , 0  } }, // #131 [ref=1x]
-  { InstDB::RWInfo::kCategoryGeneric   , 42, { 76, 9 , 9 , 0 , 0 , 0  } }, // #132 [ref=1x]
-  { InstDB::RWInfo::kCategoryGeneric   , 16, { 35, 3 , 0 , 0 , 0 , 0  } }, // #133 [ref=3x]
-  { InstDB::RWInfo::kCategoryGeneric   , 27, { 35, 13, 0 , 0 , 0 , 0  } }, // #134 [ref=1x]
-  { InstDB::RWInfo::kCategoryGeneric   , 5 , { 35, 9 , 0 , 0 , 0 , 0  } }, // #135 [ref=1x]
-  { InstDB::RWInfo::kCategoryGeneric   , 8 , { 2 , 3 , 2 , 0 , 0 , 0  } }, // #136 [ref=2x]
-  { InstDB::RWInfo::kCategoryGeneric   , 0 , { 2 , 3 , 2 , 0 , 0 , 0  } }, // #137 [ref=4x]
-  { InstDB::RWInfo::kCategoryGeneric   , 14, { 4 , 3 , 4 , 0 , 0 , 0  } }, // #138 [ref=2x]
-  { InstDB::RWInfo::kCategoryGeneric   , 40, { 10, 63, 7 , 0 , 0 , 0  } }, // #139 [ref=9x]
-  { InstDB::RWInfo::kCategoryGeneric   , 41, { 10, 84, 13, 0 , 0 , 0  } }, // #140 [ref=7x]
-  { InstDB::RWInfo::kCategoryGeneric   , 42, { 10, 79, 9 , 0 , 0 , 0  } }, // #141 [ref=11x]
-  { InstDB::RWInfo::kCategoryGeneric   , 50, { 77, 78, 5 , 0 , 0 , 0  } }, // #142 [ref=2x]
-  { InstDB::RWInfo::kCategoryGeneric   , 50, { 11, 3 , 5 , 0 , 0 , 0  } }, // #143 [ref=4x]
-  { InstDB::RWInfo::kCategoryGeneric   , 56, { 42, 43, 78, 0 , 0 , 0  } }, // #144 [ref=4x]
+  { InstDB::RWInfo::kCategoryGeneric   , 40, { 11, 85, 8 , 0 , 0 , 0  } }, // #107 [ref=1x]
+  { InstDB::RWInfo::kCategoryGeneric   , 41, { 11, 6 , 6 , 0 , 0 , 0  } }, // #108 [ref=1x]
+  { InstDB::RWInfo::kCategoryGeneric   , 49, { 11, 66, 3 , 0 , 0 , 0  } }, // #109 [ref=2x]
+  { InstDB::RWInfo::kCategoryGeneric   , 49, { 11, 3 , 3 , 0 , 0 , 0  } }, // #110 [ref=2x]
+  { InstDB::RWInfo::kCategoryGeneric   , 49, { 11, 85, 3 , 0 , 0 , 0  } }, // #111 [ref=2x]
+  { InstDB::RWInfo::kCategoryGeneric   , 42, { 11, 66, 10, 0 , 0 , 0  } }, // #112 [ref=1x]
+  { InstDB::RWInfo::kCategoryGeneric   , 42, { 11, 6 , 6 , 0 , 0 , 0  } }, // #113 [ref=1x]
+  { InstDB::RWInfo::kCategoryGeneric   , 6 , { 4 , 3 , 3 , 0 , 0 , 0  } }, // #114 [ref=93x]
+  { InstDB::RWInfo::kCategoryGeneric   , 50, { 11, 6 , 6 , 0 , 0 , 0  } }, // #115 [ref=9x]
+  { InstDB::RWInfo::kCategoryGeneric   , 51, { 11, 84, 0 , 0 , 0 , 0  } }, // #116 [ref=2x]
+  { InstDB::RWInfo::kCategoryGeneric   , 51, { 11, 3 , 0 , 0 , 0 , 0  } }, // #117 [ref=4x]
+  { InstDB::RWInfo::kCategoryGeneric   , 52, { 83, 44, 0 , 0 , 0 , 0  } }, // #118 [ref=4x]
+  { InstDB::RWInfo::kCategoryGeneric   , 6 , { 86, 3 , 3 , 0 , 0 , 0  } }, // #119 [ref=4x]
+  { InstDB::RWInfo::kCategoryGeneric   , 42, { 87, 6 , 6 , 0 , 0 , 0  } }, // #120 [ref=3x]
+  { InstDB::RWInfo::kCategoryGeneric   , 40, { 5 , 66, 8 , 0 , 0 , 0  } }, // #121 [ref=1x]
+  { InstDB::RWInfo::kCategoryGeneric   , 42, { 5 , 85, 10, 0 , 0 , 0  } }, // #122 [ref=1x]
+  { InstDB::RWInfo::kCategoryGeneric   , 40, { 7 , 8 , 8 , 0 , 0 , 0  } }, // #123 [ref=11x]
+  { InstDB::RWInfo::kCategoryGeneric   , 41, { 24, 6 , 6 , 0 , 0 , 0  } }, // #124 [ref=6x]
+  { InstDB::RWInfo::kCategoryGeneric   , 42, { 9 , 10, 10, 0 , 0 , 0  } }, // #125 [ref=11x]
+  { InstDB::RWInfo::kCategoryGeneric   , 53, { 12, 3 , 3 , 3 , 0 , 0  } }, // #126 [ref=15x]
+  { InstDB::RWInfo::kCategoryGeneric   , 54, { 36, 8 , 8 , 8 , 0 , 0  } }, // #127 [ref=4x]
+  { InstDB::RWInfo::kCategoryGeneric   , 55, { 45, 10, 10, 10, 0 , 0  } }, // #128 [ref=4x]
+  { InstDB::RWInfo::kCategoryGeneric   , 41, { 24, 6 , 14, 0 , 0 , 0  } }, // #129 [ref=6x]
+  { InstDB::RWInfo::kCategoryGeneric   , 42, { 88, 6 , 6 , 0 , 0 , 0  } }, // #130 [ref=1x]
+  { InstDB::RWInfo::kCategoryGeneric   , 40, { 73, 8 , 8 , 0 , 0 , 0  } }, // #131 [ref=1x]
+  { InstDB::RWInfo::kCategoryGeneric   , 42, { 82, 10, 10, 0 , 0 , 0  } }, // #132 [ref=1x]
+  { InstDB::RWInfo::kCategoryGeneric   , 16, { 36, 3 , 0 , 0 , 0 , 0  } }, // #133 [ref=3x]
+  { InstDB::RWInfo::kCategoryGeneric   , 27, { 36, 14, 0 , 0 , 0 , 0  } }, // #134 [ref=1x]
+  { InstDB::RWInfo::kCategoryGeneric   , 5 , { 36, 10, 0 , 0 , 0 , 0  } }, // #135 [ref=1x]
+  { InstDB::RWInfo::kCategoryGeneric   , 8 , { 4 , 3 , 4 , 0 , 0 , 0  } }, // #136 [ref=2x]
+  { InstDB::RWInfo::kCategoryGeneric   , 0 , { 4 , 3 , 4 , 0 , 0 , 0  } }, // #137 [ref=4x]
+  { InstDB::RWInfo::kCategoryGeneric   , 14, { 5 , 3 , 5 , 0 , 0 , 0  } }, // #138 [ref=2x]
+  { InstDB::RWInfo::kCategoryGeneric   , 40, { 11, 66, 8 , 0 , 0 , 0  } }, // #139 [ref=9x]
+  { InstDB::RWInfo::kCategoryGeneric   , 41, { 11, 89, 14, 0 , 0 , 0  } }, // #140 [ref=7x]
+  { InstDB::RWInfo::kCategoryGeneric   , 42, { 11, 85, 10, 0 , 0 , 0  } }, // #141 [ref=11x]
+  { InstDB::RWInfo::kCategoryGeneric   , 50, { 83, 84, 6 , 0 , 0 , 0  } }, // #142 [ref=2x]
+  { InstDB::RWInfo::kCategoryGeneric   , 50, { 12, 3 , 6 , 0 , 0 , 0  } }, // #143 [ref=4x]
+  { InstDB::RWInfo::kCategoryGeneric   , 56, { 81, 44, 84, 0 , 0 , 0  } }, // #144 [ref=4x]
   { InstDB::RWInfo::kCategoryVmaskmov  , 0 , { 0 , 0 , 0 , 0 , 0 , 0  } }, // #145 [ref=4x]
-  { InstDB::RWInfo::kCategoryGeneric   , 0 , { 54, 0 , 0 , 0 , 0 , 0  } }, // #146 [ref=2x]
-  { InstDB::RWInfo::kCategoryGeneric   , 0 , { 10, 63, 63, 0 , 0 , 0  } }, // #147 [ref=1x]
-  { InstDB::RWInfo::kCategoryGeneric   , 12, { 10, 7 , 7 , 0 , 0 , 0  } }, // #148 [ref=2x]
-  { InstDB::RWInfo::kCategoryGeneric   , 0 , { 10, 7 , 7 , 0 , 0 , 0  } }, // #149 [ref=1x]
-  { InstDB::RWInfo::kCategoryGeneric   , 12, { 10, 63, 7 , 0 , 0 , 0  } }, // #150 [ref=2x]
-  { InstDB::RWInfo::kCategoryGeneric   , 0 , { 10, 63, 7 , 0 , 0 , 0  } }, // #151 [ref=1x]
-  { InstDB::RWInfo::kCategoryGeneric   , 0 , { 10, 84, 13, 0 , 0 , 0  } }, // #152 [ref=1x]
-  { InstDB::RWInfo::kCategoryGeneric   , 0 , { 10, 79, 9 , 0 , 0 , 0  } }, // #153 [ref=1x]
-  { InstDB::RWInfo::kCategoryGeneric   , 12, { 35, 0 , 0 , 0 , 0 , 0  } }, // #154 [ref=1x]
-  { InstDB::RWInfo::kCategoryGeneric   , 0 , { 85, 0 , 0 , 0 , 0 , 0  } }, // #155 [ref=1x]
-  { InstDB::RWInfo::kCategoryGeneric   , 59, { 86, 87, 3 , 3 , 0 , 0  } }, // #156 [ref=2x]
-  { InstDB::RWInfo::kCategoryGeneric   , 56, { 77, 78, 78, 0 , 0 , 0  } }, // #157 [ref=2x]
-  { InstDB::RWInfo::kCategoryGeneric   , 22, { 11, 3 , 3 , 0 , 0 , 0  } }, // #158 [ref=4x]
-  { InstDB::RWInfo::kCategoryGeneric   , 7 , { 48, 5 , 0 , 0 , 0 , 0  } }, // #159 [ref=1x]
-  { InstDB::RWInfo::kCategoryGeneric   , 60, { 10, 5 , 40, 0 , 0 , 0  } }, // #160 [ref=1x]
-  { InstDB::RWInfo::kCategoryGeneric   , 50, { 10, 5 , 5 , 5 , 0 , 0  } }, // #161 [ref=12x]
-  { InstDB::RWInfo::kCategoryGeneric   , 64, { 10, 5 , 5 , 5 , 0 , 0  } }, // #162 [ref=1x]
-  { InstDB::RWInfo::kCategoryGeneric   , 65, { 10, 5 , 5 , 0 , 0 , 0  } }, // #163 [ref=12x]
-  { InstDB::RWInfo::kCategoryGeneric   , 66, { 11, 3 , 5 , 0 , 0 , 0  } }, // #164 [ref=5x]
-  { InstDB::RWInfo::kCategoryGeneric   , 67, { 11, 3 , 0 , 0 , 0 , 0  } }, // #165 [ref=2x]
-  { InstDB::RWInfo::kCategoryGeneric   , 68, { 11, 3 , 5 , 0 , 0 , 0  } }, // #166 [ref=3x]
-  { InstDB::RWInfo::kCategoryGeneric   , 22, { 11, 3 , 5 , 0 , 0 , 0  } }, // #167 [ref=1x]
-  { InstDB::RWInfo::kCategoryGenericEx , 6 , { 2 , 3 , 3 , 0 , 0 , 0  } }, // #168 [ref=2x]
-  { InstDB::RWInfo::kCategoryGeneric   , 0 , { 88, 78, 5 , 0 , 0 , 0  } }, // #169 [ref=1x]
-  { InstDB::RWInfo::kCategoryGeneric   , 50, { 4 , 5 , 5 , 0 , 0 , 0  } }, // #170 [ref=3x]
-  { InstDB::RWInfo::kCategoryGeneric   , 0 , { 55, 17, 29, 0 , 0 , 0  } }, // #171 [ref=2x]
-  { InstDB::RWInfo::kCategoryGeneric   , 8 , { 3 , 55, 17, 0 , 0 , 0  } }, // #172 [ref=4x]
-  { InstDB::RWInfo::kCategoryGeneric   , 8 , { 11, 55, 17, 0 , 0 , 0  } }  // #173 [ref=8x]
+  { InstDB::RWInfo::kCategoryGeneric   , 0 , { 56, 0 , 0 , 0 , 0 , 0  } }, // #146 [ref=2x]
+  { InstDB::RWInfo::kCategoryGeneric   , 0 , { 11, 66, 66, 0 , 0 , 0  } }, // #147 [ref=1x]
+  { InstDB::RWInfo::kCategoryGeneric   , 12, { 11, 8 , 8 , 0 , 0 , 0  } }, // #148 [ref=2x]
+  { InstDB::RWInfo::kCategoryGeneric   , 0 , { 11, 8 , 8 , 0 , 0 , 0  } }, // #149 [ref=1x]
+  { InstDB::RWInfo::kCategoryGeneric   , 12, { 11, 66, 8 , 0 , 0 , 0  } }, // #150 [ref=2x]
+  { InstDB::RWInfo::kCategoryGeneric   , 0 , { 11, 66, 8 , 0 , 0 , 0  } }, // #151 [ref=1x]
+  { InstDB::RWInfo::kCategoryGeneric   , 0 , { 11, 89, 14, 0 , 0 , 0  } }, // #152 [ref=1x]
+  { InstDB::RWInfo::kCategoryGeneric   , 0 , { 11, 85, 10, 0 , 0 , 0  } }, // #153 [ref=1x]
+  { InstDB::RWInfo::kCategoryGeneric   , 12, { 37, 0 , 0 , 0 , 0 , 0  } }, // #154 [ref=1x]
+  { InstDB::RWInfo::kCategoryGeneric   , 0 , { 90, 0 , 0 , 0 , 0 , 0  } }, // #155 [ref=1x]
+  { InstDB::RWInfo::kCategoryGeneric   , 59, { 91, 92, 3 , 3 , 0 , 0  } }, // #156 [ref=2x]
+  { InstDB::RWInfo::kCategoryGeneric   , 56, { 83, 84, 84, 0 , 0 , 0  } }, // #157 [ref=2x]
+  { InstDB::RWInfo::kCategoryGeneric   , 22, { 12, 3 , 3 , 0 , 0 , 0  } }, // #158 [ref=4x]
+  { InstDB::RWInfo::kCategoryGeneric   , 7 , { 60, 6 , 0 , 0 , 0 , 0  } }, // #159 [ref=1x]
+  { InstDB::RWInfo::kCategoryGeneric   , 60, { 11, 6 , 41, 0 , 0 , 0  } }, // #160 [ref=1x]
+  { InstDB::RWInfo::kCategoryGeneric   , 50, { 11, 6 , 6 , 6 , 0 , 0  } }, // #161 [ref=12x]
+  { InstDB::RWInfo::kCategoryGeneric   , 64, { 11, 6 , 6 , 6 , 0 , 0  } }, // #162 [ref=1x]
+  { InstDB::RWInfo::kCategoryGeneric   , 65, { 11, 6 , 6 , 0 , 0 , 0  } }, // #163 [ref=12x]
+  { InstDB::RWInfo::kCategoryGeneric   , 66, { 12, 3 , 6 , 0 , 0 , 0  } }, // #164 [ref=5x]
+  { InstDB::RWInfo::kCategoryGeneric   , 67, { 12, 3 , 0 , 0 , 0 , 0  } }, // #165 [ref=2x]
+  { InstDB::RWInfo::kCategoryGeneric   , 68, { 12, 3 , 6 , 0 , 0 , 0  } }, // #166 [ref=3x]
+  { InstDB::RWInfo::kCategoryGeneric   , 22, { 12, 3 , 6 , 0 , 0 , 0  } }, // #167 [ref=1x]
+  { InstDB::RWInfo::kCategoryGenericEx , 6 , { 4 , 3 , 3 , 0 , 0 , 0  } }, // #168 [ref=2x]
+  { InstDB::RWInfo::kCategoryGeneric   , 0 , { 93, 84, 6 , 0 , 0 , 0  } }, // #169 [ref=1x]
+  { InstDB::RWInfo::kCategoryGeneric   , 50, { 5 , 6 , 6 , 0 , 0 , 0  } }, // #170 [ref=3x]
+  { InstDB::RWInfo::kCategoryGeneric   , 0 , { 57, 18, 30, 0 , 0 , 0  } }, // #171 [ref=2x]
+  { InstDB::RWInfo::kCategoryGeneric   , 8 , { 3 , 57, 18, 0 , 0 , 0  } }, // #172 [ref=4x]
+  { InstDB::RWInfo::kCategoryGeneric   , 8 , { 49, 57, 18, 0 , 0 , 0  } }  // #173 [ref=8x]
 };
 
 const InstDB::RWInfoOp InstDB::rw_info_op_table[] = {
   { 0x0000000000000000u, 0x0000000000000000u, 0xFF, 0, { 0 }, OpRWFlags::kNone }, // #0 [ref=16348x]
   { 0x0000000000000003u, 0x0000000000000003u, 0x00, 0, { 0 }, OpRWFlags::kRW | OpRWFlags::kRegPhysId }, // #1 [ref=10x]
-  { 0x0000000000000000u, 0x0000000000000000u, 0xFF, 0, { 0 }, OpRWFlags::kRW | OpRWFlags::kZExt }, // #2 [ref=272x]
+  { 0x0000000000000000u, 0x0000000000000000u, 0xFF, 0, { 0 }, OpRWFlags::kRW }, // #2 [ref=20x]
   { 0x0000000000000000u, 0x0000000000000000u, 0xFF, 0, { 0 }, OpRWFlags::kRead }, // #3 [ref=1091x]
-  { 0x000000000000FFFFu, 0x000000000000FFFFu, 0xFF, 0, { 0 }, OpRWFlags::kRW | OpRWFlags::kZExt }, // #4 [ref=93x]
-  { 0x000000000000FFFFu, 0x0000000000000000u, 0xFF, 0, { 0 }, OpRWFlags::kRead }, // #5 [ref=338x]
-  { 0x00000000000000FFu, 0x00000000000000FFu, 0xFF, 0, { 0 }, OpRWFlags::kRW }, // #6 [ref=18x]
-  { 0x00000000000000FFu, 0x0000000000000000u, 0xFF, 0, { 0 }, OpRWFlags::kRead }, // #7 [ref=186x]
-  { 0x000000000000000Fu, 0x000000000000000Fu, 0xFF, 0, { 0 }, OpRWFlags::kRW }, // #8 [ref=18x]
-  { 0x000000000000000Fu, 0x0000000000000000u, 0xFF, 0, { 0 }, OpRWFlags::kRead }, // #9 [ref=133x]
-  { 0x0000000000000000u, 0x000000000000FFFFu, 0xFF, 0, { 0 }, OpRWFlags::kWrite | OpRWFlags::kZExt }, // #10 [ref=178x]
-  { 0x0000000000000000u, 0x0000000000000000u, 0xFF, 0, { 0 }, OpRWFlags::kWrite | OpRWFlags::kZExt }, // #11 [ref=440x]
-  { 0x0000000000000003u, 0x0000000000000003u, 0xFF, 0, { 0 }, OpRWFlags::kRW }, // #12 [ref=1x]
-  { 0x0000000000000003u, 0x0000000000000000u, 0xFF, 0, { 0 }, OpRWFlags::kRead }, // #13 [ref=71x]
-  { 0x000000000000FFFFu, 0x0000000000000000u, 0x00, 0, { 0 }, OpRWFlags::kRead | OpRWFlags::kRegPhysId }, // #14 [ref=4x]
-  { 0x0000000000000000u, 0x0000000000000000u, 0xFF, 0, { 0 }, OpRWFlags::kWrite | OpRWFlags::kZExt | OpRWFlags::kMemBaseWrite | OpRWFlags::kMemIndexWrite }, // #15 [ref=1x]
-  { 0x0000000000000000u, 0x000000000000000Fu, 0x02, 0, { 0 }, OpRWFlags::kWrite | OpRWFlags::kZExt | OpRWFlags::kRegPhysId }, // #16 [ref=9x]
-  { 0x000000000000000Fu, 0x0000000000000000u, 0x00, 0, { 0 }, OpRWFlags::kRead | OpRWFlags::kRegPhysId }, // #17 [ref=23x]
-  { 0x00000000000000FFu, 0x00000000000000FFu, 0x00, 0, { 0 }, OpRWFlags::kRW | OpRWFlags::kZExt | OpRWFlags::kRegPhysId }, // #18 [ref=2x]
-  { 0xFFFFFFFFFFFFFFFFu, 0x0000000000000000u, 0x00, 0, { 0 }, OpRWFlags::kRead | OpRWFlags::kMemPhysId }, // #19 [ref=1x]
-  { 0x0000000000000000u, 0x0000000000000000u, 0x06, 0, { 0 }, OpRWFlags::kRead | OpRWFlags::kMemBaseRW | OpRWFlags::kMemBasePostModify | OpRWFlags::kMemPhysId }, // #20 [ref=3x]
-  { 0x0000000000000000u, 0x0000000000000000u, 0x07, 0, { 0 }, OpRWFlags::kRead | OpRWFlags::kMemBaseRW | OpRWFlags::kMemBasePostModify | OpRWFlags::kMemPhysId }, // #21 [ref=2x]
-  { 0x0000000000000000u, 0x0000000000000000u, 0x00, 0, { 0 }, OpRWFlags::kRW | OpRWFlags::kRegPhysId | OpRWFlags::kZExt }, // #22 [ref=4x]
-  { 0x00000000000000FFu, 0x00000000000000FFu, 0x02, 0, { 0 }, OpRWFlags::kRW | OpRWFlags::kZExt | OpRWFlags::kRegPhysId }, // #23 [ref=1x]
-  { 0x00000000000000FFu, 0x0000000000000000u, 0x01, 0, { 0 }, OpRWFlags::kRead | OpRWFlags::kRegPhysId }, // #24 [ref=1x]
-  { 0x00000000000000FFu, 0x0000000000000000u, 0x03, 0, { 0 }, OpRWFlags::kRead | OpRWFlags::kRegPhysId }, // #25 [ref=1x]
-  { 0x00000000000000FFu, 0x00000000000000FFu, 0xFF, 0, { 0 }, OpRWFlags::kRW | OpRWFlags::kZExt }, // #26 [ref=20x]
-  { 0x000000000000000Fu, 0x000000000000000Fu, 0x02, 0, { 0 }, OpRWFlags::kRW | OpRWFlags::kZExt | OpRWFlags::kRegPhysId }, // #27 [ref=1x]
-  { 0x000000000000000Fu, 0x000000000000000Fu, 0x00, 0, { 0 }, OpRWFlags::kRW | OpRWFlags::kZExt | OpRWFlags::kRegPhysId }, // #28 [ref=4x]
-  { 0x000000000000000Fu, 0x0000000000000000u, 0x01, 0, { 0 }, OpRWFlags::kRead | OpRWFlags::kRegPhysId }, // #29 [ref=13x]
-  { 0x000000000000000Fu, 0x0000000000000000u, 0x03, 0, { 0 }, OpRWFlags::kRead | OpRWFlags::kRegPhysId }, // #30 [ref=3x]
-  { 0x0000000000000000u, 0x000000000000000Fu, 0x03, 0, { 0 }, OpRWFlags::kWrite | OpRWFlags::kZExt | OpRWFlags::kRegPhysId }, // #31 [ref=1x]
-  { 0x000000000000000Fu, 0x000000000000000Fu, 0x01, 0, { 0 }, OpRWFlags::kRW | OpRWFlags::kZExt | OpRWFlags::kRegPhysId }, // #32 [ref=1x]
-  { 0x0000000000000000u, 0x00000000000000FFu, 0x02, 0, { 0 }, OpRWFlags::kWrite | OpRWFlags::kZExt | OpRWFlags::kRegPhysId }, // #33 [ref=1x]
-  { 0x00000000000000FFu, 0x0000000000000000u, 0x00, 0, { 0 }, OpRWFlags::kRead | OpRWFlags::kRegPhysId }, // #34 [ref=1x]
-  { 0x0000000000000000u, 0x00000000000000FFu, 0xFF, 0, { 0 }, OpRWFlags::kWrite | OpRWFlags::kZExt }, // #35 [ref=82x]
-  { 0x0000000000000000u, 0x00000000000000FFu, 0xFF, 0, { 0 }, OpRWFlags::kWrite }, // #36 [ref=6x]
-  { 0x0000000000000000u, 0x000000000000000Fu, 0xFF, 0, { 0 }, OpRWFlags::kWrite }, // #37 [ref=6x]
-  { 0x0000000000000000u, 0x0000000000000003u, 0x02, 0, { 0 }, OpRWFlags::kWrite | OpRWFlags::kRegPhysId }, // #38 [ref=1x]
-  { 0x0000000000000003u, 0x0000000000000000u, 0x00, 0, { 0 }, OpRWFlags::kRead | OpRWFlags::kRegPhysId }, // #39 [ref=1x]
-  { 0x0000000000000001u, 0x0000000000000000u, 0xFF, 0, { 0 }, OpRWFlags::kRead }, // #40 [ref=30x]
-  { 0x0000000000000000u, 0x0000000000000000u, 0x02, 0, { 0 }, OpRWFlags::kRW | OpRWFlags::kRegPhysId | OpRWFlags::kZExt }, // #41 [ref=2x]
-  { 0x0000000000000000u, 0xFFFFFFFFFFFFFFFFu, 0xFF, 0, { 0 }, OpRWFlags::kWrite | OpRWFlags::kZExt }, // #42 [ref=15x]
-  { 0xFFFFFFFFFFFFFFFFu, 0x0000000000000000u, 0xFF, 0, { 0 }, OpRWFlags::kRead }, // #43 [ref=29x]
-  { 0x0000000000000000u, 0x000000000000000Fu, 0xFF, 0, { 0 }, OpRWFlags::kWrite | OpRWFlags::kZExt }, // #44 [ref=30x]
-  { 0x00000000000003FFu, 0x00000000000003FFu, 0xFF, 0, { 0 }, OpRWFlags::kRW | OpRWFlags::kZExt }, // #45 [ref=22x]
-  { 0x00000000000003FFu, 0x0000000000000000u, 0xFF, 0, { 0 }, OpRWFlags::kRead }, // #46 [ref=13x]
-  { 0x0000000000000000u, 0x00000000000003FFu, 0xFF, 0, { 0 }, OpRWFlags::kWrite | OpRWFlags::kZExt }, // #47 [ref=1x]
-  { 0x0000000000000000u, 0x0000000000000003u, 0xFF, 0, { 0 }, OpRWFlags::kWrite | OpRWFlags::kZExt }, // #48 [ref=17x]
-  { 0x0000000000000000u, 0x0000000000000003u, 0x00, 0, { 0 }, OpRWFlags::kWrite | OpRWFlags::kRegPhysId | OpRWFlags::kZExt }, // #49 [ref=2x]
-  { 0x0000000000000000u, 0x000000000000000Fu, 0x00, 0, { 0 }, OpRWFlags::kWrite | OpRWFlags::kZExt | OpRWFlags::kRegPhysId }, // #50 [ref=9x]
-  { 0x0000000000000000u, 0x0000000000000000u, 0x00, 0, { 0 }, OpRWFlags::kWrite | OpRWFlags::kRegPhysId | OpRWFlags::kZExt }, // #51 [ref=2x]
-  { 0x0000000000000003u, 0x0000000000000000u, 0x02, 0, { 0 }, OpRWFlags::kRead | OpRWFlags::kRegPhysId }, // #52 [ref=4x]
-  { 0x0000000000000000u, 0x0000000000000000u, 0x07, 0, { 0 }, OpRWFlags::kWrite | OpRWFlags::kZExt | OpRWFlags::kMemPhysId }, // #53 [ref=1x]
-  { 0x0000000000000000u, 0x0000000000000000u, 0x00, 0, { 0 }, OpRWFlags::kRead | OpRWFlags::kRegPhysId }, // #54 [ref=7x]
-  { 0x000000000000000Fu, 0x0000000000000000u, 0x02, 0, { 0 }, OpRWFlags::kRead | OpRWFlags::kRegPhysId }, // #55 [ref=23x]
-  { 0x0000000000000000u, 0x0000000000000000u, 0x01, 0, { 0 }, OpRWFlags::kRead | OpRWFlags::kRegPhysId }, // #56 [ref=2x]
-  { 0x0000000000000000u, 0x0000000000000001u, 0xFF, 0, { 0 }, OpRWFlags::kWrite | OpRWFlags::kZExt }, // #57 [ref=14x]
-  { 0x0000000000000000u, 0x0000000000000001u, 0x00, 0, { 0 }, OpRWFlags::kWrite | OpRWFlags::kRegPhysId }, // #58 [ref=1x]
-  { 0x0000000000000000u, 0x0000000000000000u, 0x01, 0, { 0 }, OpRWFlags::kRW | OpRWFlags::kRegPhysId | OpRWFlags::kZExt }, // #59 [ref=3x]
-  { 0x000000000000FFFFu, 0x000000000000FFFFu, 0x07, 0, { 0 }, OpRWFlags::kRW | OpRWFlags::kZExt | OpRWFlags::kMemPhysId }, // #60 [ref=2x]
-  { 0x00000000000000FFu, 0x00000000000000FFu, 0x07, 0, { 0 }, OpRWFlags::kRW | OpRWFlags::kZExt | OpRWFlags::kMemPhysId }, // #61 [ref=1x]
-  { 0x0000000000000000u, 0x0000000000000000u, 0x00, 0, { 0 }, OpRWFlags::kRead | OpRWFlags::kMemPhysId }, // #62 [ref=2x]
-  { 0x000000000000FF00u, 0x0000000000000000u, 0xFF, 0, { 0 }, OpRWFlags::kRead }, // #63 [ref=21x]
-  { 0x0000000000000000u, 0x000000000000FF00u, 0xFF, 0, { 0 }, OpRWFlags::kWrite }, // #64 [ref=1x]
-  { 0x0000000000000000u, 0x0000000000000000u, 0x07, 0, { 0 }, OpRWFlags::kWrite | OpRWFlags::kZExt | OpRWFlags::kMemBaseRW | OpRWFlags::kMemBasePostModify | OpRWFlags::kMemPhysId }, // #65 [ref=2x]
-  { 0x0000000000000000u, 0x0000000000000000u, 0x02, 0, { 0 }, OpRWFlags::kWrite | OpRWFlags::kRegPhysId | OpRWFlags::kZExt }, // #66 [ref=1x]
-  { 0x0000000000000000u, 0x0000000000000000u, 0x02, 0, { 0 }, OpRWFlags::kRead | OpRWFlags::kRegPhysId }, // #67 [ref=1x]
-  { 0x0000000000000000u, 0x0000000000000000u, 0x06, 0, { 0 }, OpRWFlags::kRead | OpRWFlags::kMemPhysId }, // #68 [ref=1x]
-  { 0x0000000000000000u, 0x000000000000000Fu, 0x01, 0, { 0 }, OpRWFlags::kWrite | OpRWFlags::kZExt | OpRWFlags::kRegPhysId }, // #69 [ref=5x]
-  { 0x0000000000000000u, 0x000000000000FFFFu, 0x00, 0, { 0 }, OpRWFlags::kWrite | OpRWFlags::kZExt | OpRWFlags::kRegPhysId }, // #70 [ref=4x]
-  { 0x0000000000000000u, 0x0000000000000007u, 0xFF, 0, { 0 }, OpRWFlags::kWrite | OpRWFlags::kZExt }, // #71 [ref=2x]
-  { 0x0000000000000001u, 0x0000000000000000u, 0x01, 0, { 0 }, OpRWFlags::kRead | OpRWFlags::kRegPhysId }, // #72 [ref=9x]
-  { 0x0000000000000001u, 0x0000000000000000u, 0x00, 0, { 0 }, OpRWFlags::kRead | OpRWFlags::kRegPhysId }, // #73 [ref=1x]
-  { 0x0000000000000000u, 0x0000000000000001u, 0xFF, 0, { 0 }, OpRWFlags::kWrite }, // #74 [ref=16x]
-  { 0xFFFFFFFFFFFFFFFFu, 0xFFFFFFFFFFFFFFFFu, 0xFF, 0, { 0 }, OpRWFlags::kRW | OpRWFlags::kZExt }, // #75 [ref=8x]
-  { 0x000000000000000Fu, 0x000000000000000Fu, 0xFF, 0, { 0 }, OpRWFlags::kRW | OpRWFlags::kZExt }, // #76 [ref=3x]
-  { 0x0000000000000000u, 0x00000000FFFFFFFFu, 0xFF, 0, { 0 }, OpRWFlags::kWrite | OpRWFlags::kZExt }, // #77 [ref=10x]
-  { 0x00000000FFFFFFFFu, 0x0000000000000000u, 0xFF, 0, { 0 }, OpRWFlags::kRead }, // #78 [ref=18x]
-  { 0x000000000000FFF0u, 0x0000000000000000u, 0xFF, 0, { 0 }, OpRWFlags::kRead }, // #79 [ref=16x]
-  { 0x0000000000000000u, 0x0000000000000000u, 0xFF, 0, { 0 }, OpRWFlags::kRW | OpRWFlags::kUnique | OpRWFlags::kZExt }, // #80 [ref=4x]
-  { 0x000000000000FFFFu, 0x000000000000FFFFu, 0xFF, 0, { 0 }, OpRWFlags::kRW | OpRWFlags::kUnique }, // #81 [ref=3x]
-  { 0x000000000000FFFFu, 0x000000000000FFFFu, 0xFF, 0, { 0 }, OpRWFlags::kRW }, // #82 [ref=12x]
-  { 0x000000000000FFFFu, 0x000000000000FFFFu, 0xFF, 0, { 0 }, OpRWFlags::kRW | OpRWFlags::kUnique | OpRWFlags::kZExt }, // #83 [ref=1x]
-  { 0x000000000000FFFCu, 0x0000000000000000u, 0xFF, 0, { 0 }, OpRWFlags::kRead }, // #84 [ref=8x]
-  { 0x0000000000000000u, 0x0000000000000000u, 0x00, 0, { 0 }, OpRWFlags::kRW | OpRWFlags::kZExt | OpRWFlags::kRegPhysId }, // #85 [ref=1x]
-  { 0x0000000000000000u, 0x00000000000000FFu, 0xFF, 2, { 0 }, OpRWFlags::kWrite | OpRWFlags::kZExt }, // #86 [ref=2x]
-  { 0x0000000000000000u, 0x0000000000000000u, 0xFF, 0, { 0 }, OpRWFlags::kWrite | OpRWFlags::kZExt | OpRWFlags::kConsecutive }, // #87 [ref=2x]
-  { 0x00000000FFFFFFFFu, 0x00000000FFFFFFFFu, 0xFF, 0, { 0 }, OpRWFlags::kRW | OpRWFlags::kZExt }  // #88 [ref=3x]
+  { 0x0000000000000000u, 0x0000000000000000u, 0xFF, 0, { 0 }, OpRWFlags::kRW | OpRWFlags::kZExt }, // #4 [ref=252x]
+  { 0x000000000000FFFFu, 0x000000000000FFFFu, 0xFF, 0, { 0 }, OpRWFlags::kRW | OpRWFlags::kZExt }, // #5 [ref=92x]
+  { 0x000000000000FFFFu, 0x0000000000000000u, 0xFF, 0, { 0 }, OpRWFlags::kRead }, // #6 [ref=338x]
+  { 0x00000000000000FFu, 0x00000000000000FFu, 0xFF, 0, { 0 }, OpRWFlags::kRW }, // #7 [ref=19x]
+  { 0x00000000000000FFu, 0x0000000000000000u, 0xFF, 0, { 0 }, OpRWFlags::kRead }, // #8 [ref=186x]
+  { 0x000000000000000Fu, 0x000000000000000Fu, 0xFF, 0, { 0 }, OpRWFlags::kRW }, // #9 [ref=18x]
+  { 0x000000000000000Fu, 0x0000000000000000u, 0xFF, 0, { 0 }, OpRWFlags::kRead }, // #10 [ref=133x]
+  { 0x0000000000000000u, 0x000000000000FFFFu, 0xFF, 0, { 0 }, OpRWFlags::kWrite | OpRWFlags::kZExt }, // #11 [ref=175x]
+  { 0x0000000000000000u, 0x0000000000000000u, 0xFF, 0, { 0 }, OpRWFlags::kWrite | OpRWFlags::kZExt }, // #12 [ref=407x]
+  { 0x0000000000000003u, 0x0000000000000003u, 0xFF, 0, { 0 }, OpRWFlags::kRW }, // #13 [ref=1x]
+  { 0x0000000000000003u, 0x0000000000000000u, 0xFF, 0, { 0 }, OpRWFlags::kRead }, // #14 [ref=71x]
+  { 0x000000000000FFFFu, 0x0000000000000000u, 0x00, 0, { 0 }, OpRWFlags::kRead | OpRWFlags::kRegPhysId }, // #15 [ref=4x]
+  { 0x0000000000000000u, 0x0000000000000000u, 0xFF, 0, { 0 }, OpRWFlags::kWrite | OpRWFlags::kMemBaseWrite | OpRWFlags::kMemIndexWrite }, // #16 [ref=1x]
+  { 0x0000000000000000u, 0x000000000000000Fu, 0x02, 0, { 0 }, OpRWFlags::kWrite | OpRWFlags::kZExt | OpRWFlags::kRegPhysId }, // #17 [ref=9x]
+  { 0x000000000000000Fu, 0x0000000000000000u, 0x00, 0, { 0 }, OpRWFlags::kRead | OpRWFlags::kRegPhysId }, // #18 [ref=23x]
+  { 0x00000000000000FFu, 0x00000000000000FFu, 0x00, 0, { 0 }, OpRWFlags::kRW | OpRWFlags::kZExt | OpRWFlags::kRegPhysId }, // #19 [ref=2x]
+  { 0xFFFFFFFFFFFFFFFFu, 0x0000000000000000u, 0x00, 0, { 0 }, OpRWFlags::kRead | OpRWFlags::kMemPhysId }, // #20 [ref=1x]
+  { 0x0000000000000000u, 0x0000000000000000u, 0x06, 0, { 0 }, OpRWFlags::kRead | OpRWFlags::kMemBaseRW | OpRWFlags::kMemBasePostModify | OpRWFlags::kMemPhysId }, // #21 [ref=3x]
+  { 0x0000000000000000u, 0x0000000000000000u, 0x07, 0, { 0 }, OpRWFlags::kRead | OpRWFlags::kMemBaseRW | OpRWFlags::kMemBasePostModify | OpRWFlags::kMemPhysId }, // #22 [ref=2x]
+  { 0x0000000000000000u, 0x0000000000000000u, 0x00, 0, { 0 }, OpRWFlags::kRW | OpRWFlags::kRegPhysId | OpRWFlags::kZExt }, // #23 [ref=4x]
+  { 0x000000000000FFFFu, 0x000000000000FFFFu, 0xFF, 0, { 0 }, OpRWFlags::kRW }, // #24 [ref=13x]
+  { 0x00000000000000FFu, 0x00000000000000FFu, 0x02, 0, { 0 }, OpRWFlags::kRW | OpRWFlags::kZExt | OpRWFlags::kRegPhysId }, // #25 [ref=1x]
+  { 0x00000000000000FFu, 0x0000000000000000u, 0x01, 0, { 0 }, OpRWFlags::kRead | OpRWFlags::kRegPhysId }, // #26 [ref=1x]
+  { 0x00000000000000FFu, 0x0000000000000000u, 0x03, 0, { 0 }, OpRWFlags::kRead | OpRWFlags::kRegPhysId }, // #27 [ref=1x]
+  { 0x000000000000000Fu, 0x000000000000000Fu, 0x02, 0, { 0 }, OpRWFlags::kRW | OpRWFlags::kZExt | OpRWFlags::kRegPhysId }, // #28 [ref=1x]
+  { 0x000000000000000Fu, 0x000000000000000Fu, 0x00, 0, { 0 }, OpRWFlags::kRW | OpRWFlags::kZExt | OpRWFlags::kRegPhysId }, // #29 [ref=4x]
+  { 0x000000000000000Fu, 0x0000000000000000u, 0x01, 0, { 0 }, OpRWFlags::kRead | OpRWFlags::kRegPhysId }, // #30 [ref=13x]
+  { 0x000000000000000Fu, 0x0000000000000000u, 0x03, 0, { 0 }, OpRWFlags::kRead | OpRWFlags::kRegPhysId }, // #31 [ref=3x]
+  { 0x0000000000000000u, 0x000000000000000Fu, 0x03, 0, { 0 }, OpRWFlags::kWrite | OpRWFlags::kZExt | OpRWFlags::kRegPhysId }, // #32 [ref=1x]
+  { 0x000000000000000Fu, 0x000000000000000Fu, 0x01, 0, { 0 }, OpRWFlags::kRW | OpRWFlags::kZExt | OpRWFlags::kRegPhysId }, // #33 [ref=1x]
+  { 0x0000000000000000u, 0x00000000000000FFu, 0x02, 0, { 0 }, OpRWFlags::kWrite | OpRWFlags::kZExt | OpRWFlags::kRegPhysId }, // #34 [ref=1x]
+  { 0x00000000000000FFu, 0x0000000000000000u, 0x00, 0, { 0 }, OpRWFlags::kRead | OpRWFlags::kRegPhysId }, // #35 [ref=1x]
+  { 0x0000000000000000u, 0x00000000000000FFu, 0xFF, 0, { 0 }, OpRWFlags::kWrite | OpRWFlags::kZExt }, // #36 [ref=71x]
+  { 0x0000000000000000u, 0x00000000000000FFu, 0xFF, 0, { 0 }, OpRWFlags::kWrite }, // #37 [ref=17x]
+  { 0x0000000000000000u, 0x000000000000000Fu, 0xFF, 0, { 0 }, OpRWFlags::kWrite }, // #38 [ref=11x]
+  { 0x0000000000000000u, 0x0000000000000003u, 0x02, 0, { 0 }, OpRWFlags::kWrite | OpRWFlags::kRegPhysId }, // #39 [ref=1x]
+  { 0x0000000000000003u, 0x0000000000000000u, 0x00, 0, { 0 }, OpRWFlags::kRead | OpRWFlags::kRegPhysId }, // #40 [ref=1x]
+  { 0x0000000000000001u, 0x0000000000000000u, 0xFF, 0, { 0 }, OpRWFlags::kRead }, // #41 [ref=30x]
+  { 0x0000000000000000u, 0x0000000000000000u, 0x02, 0, { 0 }, OpRWFlags::kRW | OpRWFlags::kRegPhysId | OpRWFlags::kZExt }, // #42 [ref=2x]
+  { 0x0000000000000000u, 0xFFFFFFFFFFFFFFFFu, 0xFF, 0, { 0 }, OpRWFlags::kWrite }, // #43 [ref=4x]
+  { 0xFFFFFFFFFFFFFFFFu, 0x0000000000000000u, 0xFF, 0, { 0 }, OpRWFlags::kRead }, // #44 [ref=29x]
+  { 0x0000000000000000u, 0x000000000000000Fu, 0xFF, 0, { 0 }, OpRWFlags::kWrite | OpRWFlags::kZExt }, // #45 [ref=25x]
+  { 0x00000000000003FFu, 0x00000000000003FFu, 0xFF, 0, { 0 }, OpRWFlags::kRW | OpRWFlags::kZExt }, // #46 [ref=22x]
+  { 0x00000000000003FFu, 0x0000000000000000u, 0xFF, 0, { 0 }, OpRWFlags::kRead }, // #47 [ref=13x]
+  { 0x0000000000000000u, 0x00000000000003FFu, 0xFF, 0, { 0 }, OpRWFlags::kWrite }, // #48 [ref=1x]
+  { 0x0000000000000000u, 0x0000000000000000u, 0xFF, 0, { 0 }, OpRWFlags::kWrite }, // #49 [ref=33x]
+  { 0x0000000000000000u, 0x0000000000000003u, 0xFF, 0, { 0 }, OpRWFlags::kWrite }, // #50 [ref=2x]
+  { 0x0000000000000000u, 0x0000000000000003u, 0x00, 0, { 0 }, OpRWFlags::kWrite | OpRWFlags::kRegPhysId }, // #51 [ref=2x]
+  { 0x0000000000000000u, 0x000000000000000Fu, 0x00, 0, { 0 }, OpRWFlags::kWrite | OpRWFlags::kZExt | OpRWFlags::kRegPhysId }, // #52 [ref=9x]
+  { 0x0000000000000000u, 0x0000000000000000u, 0x00, 0, { 0 }, OpRWFlags::kWrite | OpRWFlags::kRegPhysId | OpRWFlags::kZExt }, // #53 [ref=2x]
+  { 0x0000000000000003u, 0x0000000000000000u, 0x02, 0, { 0 }, OpRWFlags::kRead | OpRWFlags::kRegPhysId }, // #54 [ref=4x]
+  { 0x0000000000000000u, 0x0000000000000000u, 0x07, 0, { 0 }, OpRWFlags::kWrite | OpRWFlags::kMemPhysId }, // #55 [ref=1x]
+  { 0x0000000000000000u, 0x0000000000000000u, 0x00, 0, { 0 }, OpRWFlags::kRead | OpRWFlags::kRegPhysId }, // #56 [ref=7x]
+  { 0x000000000000000Fu, 0x0000000000000000u, 0x02, 0, { 0 }, OpRWFlags::kRead | OpRWFlags::kRegPhysId }, // #57 [ref=23x]
+  { 0x0000000000000000u, 0x0000000000000000u, 0x01, 0, { 0 }, OpRWFlags::kRead | OpRWFlags::kRegPhysId }, // #58 [ref=2x]
+  { 0x0000000000000000u, 0x0000000000000001u, 0xFF, 0, { 0 }, OpRWFlags::kWrite | OpRWFlags::kZExt }, // #59 [ref=14x]
+  { 0x0000000000000000u, 0x0000000000000003u, 0xFF, 0, { 0 }, OpRWFlags::kWrite | OpRWFlags::kZExt }, // #60 [ref=15x]
+  { 0x0000000000000000u, 0x0000000000000001u, 0x00, 0, { 0 }, OpRWFlags::kWrite | OpRWFlags::kRegPhysId }, // #61 [ref=1x]
+  { 0x0000000000000000u, 0x0000000000000000u, 0x01, 0, { 0 }, OpRWFlags::kRW | OpRWFlags::kRegPhysId | OpRWFlags::kZExt }, // #62 [ref=3x]
+  { 0x000000000000FFFFu, 0x000000000000FFFFu, 0x07, 0, { 0 }, OpRWFlags::kRW | OpRWFlags::kMemPhysId }, // #63 [ref=2x]
+  { 0x00000000000000FFu, 0x00000000000000FFu, 0x07, 0, { 0 }, OpRWFlags::kRW | OpRWFlags::kMemPhysId }, // #64 [ref=1x]
+  { 0x0000000000000000u, 0x0000000000000000u, 0x00, 0, { 0 }, OpRWFlags::kRead | OpRWFlags::kMemPhysId }, // #65 [ref=2x]
+  { 0x000000000000FF00u, 0x0000000000000000u, 0xFF, 0, { 0 }, OpRWFlags::kRead }, // #66 [ref=21x]
+  { 0x0000000000000000u, 0x000000000000FF00u, 0xFF, 0, { 0 }, OpRWFlags::kWrite }, // #67 [ref=1x]
+  { 0x0000000000000000u, 0x000000000000FFFFu, 0xFF, 0, { 0 }, OpRWFlags::kWrite }, // #68 [ref=3x]
+  { 0x0000000000000000u, 0x0000000000000000u, 0x07, 0, { 0 }, OpRWFlags::kWrite | OpRWFlags::kMemBaseRW | OpRWFlags::kMemBasePostModify | OpRWFlags::kMemPhysId }, // #69 [ref=2x]
+  { 0x0000000000000000u, 0x0000000000000000u, 0x02, 0, { 0 }, OpRWFlags::kWrite | OpRWFlags::kRegPhysId | OpRWFlags::kZExt }, // #70 [ref=1x]
+  { 0x0000000000000000u, 0x0000000000000000u, 0x02, 0, { 0 }, OpRWFlags::kRead | OpRWFlags::kRegPhysId }, // #71 [ref=1x]
+  { 0x0000000000000000u, 0x0000000000000000u, 0x06, 0, { 0 }, OpRWFlags::kRead | OpRWFlags::kMemPhysId }, // #72 [ref=1x]
+  { 0x00000000000000FFu, 0x00000000000000FFu, 0xFF, 0, { 0 }, OpRWFlags::kRW | OpRWFlags::kZExt }, // #73 [ref=19x]
+  { 0x0000000000000000u, 0x000000000000000Fu, 0x01, 0, { 0 }, OpRWFlags::kWrite | OpRWFlags::kZExt | OpRWFlags::kRegPhysId }, // #74 [ref=5x]
+  { 0x0000000000000000u, 0x000000000000FFFFu, 0x00, 0, { 0 }, OpRWFlags::kWrite | OpRWFlags::kZExt | OpRWFlags::kRegPhysId }, // #75 [ref=4x]
+  { 0x0000000000000000u, 0x0000000000000007u, 0xFF, 0, { 0 }, OpRWFlags::kWrite | OpRWFlags::kZExt }, // #76 [ref=2x]
+  { 0x0000000000000001u, 0x0000000000000000u, 0x01, 0, { 0 }, OpRWFlags::kRead | OpRWFlags::kRegPhysId }, // #77 [ref=9x]
+  { 0x0000000000000001u, 0x0000000000000000u, 0x00, 0, { 0 }, OpRWFlags::kRead | OpRWFlags::kRegPhysId }, // #78 [ref=1x]
+  { 0x0000000000000000u, 0x0000000000000001u, 0xFF, 0, { 0 }, OpRWFlags::kWrite }, // #79 [ref=16x]
+  { 0xFFFFFFFFFFFFFFFFu, 0xFFFFFFFFFFFFFFFFu, 0xFF, 0, { 0 }, OpRWFlags::kRW | OpRWFlags::kZExt }, // #80 [ref=8x]
+  { 0x0000000000000000u, 0xFFFFFFFFFFFFFFFFu, 0xFF, 0, { 0 }, OpRWFlags::kWrite | OpRWFlags::kZExt }, // #81 [ref=11x]
+  { 0x000000000000000Fu, 0x000000000000000Fu, 0xFF, 0, { 0 }, OpRWFlags::kRW | OpRWFlags::kZExt }, // #82 [ref=3x]
+  { 0x0000000000000000u, 0x00000000FFFFFFFFu, 0xFF, 0, { 0 }, OpRWFlags::kWrite | OpRWFlags::kZExt }, // #83 [ref=10x]
+  { 0x00000000FFFFFFFFu, 0x0000000000000000u, 0xFF, 0, { 0 }, OpRWFlags::kRead }, // #84 [ref=18x]
+  { 0x000000000000FFF0u, 0x0000000000000000u, 0xFF, 0, { 0 }, OpRWFlags::kRead }, // #85 [ref=16x]
+  { 0x0000000000000000u, 0x0000000000000000u, 0xFF, 0, { 0 }, OpRWFlags::kRW | OpRWFlags::kUnique | OpRWFlags::kZExt }, // #86 [ref=4x]
+  { 0x000000000000FFFFu, 0x000000000000FFFFu, 0xFF, 0, { 0 }, OpRWFlags::kRW | OpRWFlags::kUnique }, // #87 [ref=3x]
+  { 0x000000000000FFFFu, 0x000000000000FFFFu, 0xFF, 0, { 0 }, OpRWFlags::kRW | OpRWFlags::kUnique | OpRWFlags::kZExt }, // #88 [ref=1x]
+  { 0x000000000000FFFCu, 0x0000000000000000u, 0xFF, 0, { 0 }, OpRWFlags::kRead }, // #89 [ref=8x]
+  { 0x0000000000000000u, 0x0000000000000000u, 0x00, 0, { 0 }, OpRWFlags::kRW | OpRWFlags::kZExt | OpRWFlags::kRegPhysId }, // #90 [ref=1x]
+  { 0x0000000000000000u, 0x00000000000000FFu, 0xFF, 2, { 0 }, OpRWFlags::kWrite | OpRWFlags::kZExt }, // #91 [ref=2x]
+  { 0x0000000000000000u, 0x0000000000000000u, 0xFF, 0, { 0 }, OpRWFlags::kWrite | OpRWFlags::kZExt | OpRWFlags::kConsecutive }, // #92 [ref=2x]
+  { 0x00000000FFFFFFFFu, 0x00000000FFFFFFFFu, 0xFF, 0, { 0 }, OpRWFlags::kRW | OpRWFlags::kZExt }  // #93 [ref=3x]
 };
 
 const InstDB::RWInfoRm InstDB::rw_info_rm_table[] = {
